@@ -11,22 +11,1576 @@ open SpsdkVerif.Generated.MbiClasses (MixinName Method Attr provider attrs prePa
 
 variable {co : CryptoOps} {env : Env} {c : Cls} {cfg : Cfg} {signer : Signer}
 
+/-! ### class facts -/
+
+/-- what `ClassWF` says about a class of the encrypted family -/
+structure EncCls (c : Cls) : Prop where
+  himgType : c.imageType ≤ imageTypeMask
+  htzSize : c.tzSize % 4 = 0
+  hivt : c.hasAttr .ivt_table = true
+  hclean : c.hasAttr .clean_ivt = true
+  hApp : c.has .Mbi_MixinApp = true
+  horder : (parseOrder c).isSome = true
+  hallApp : (c.appLenProviders.all (fun o => o == none || o == some .Mbi_MixinApp || o == some .Mbi_MixinRelocTable)) = true
+  hcntApp : provCount c.appLenProviders .Mbi_MixinApp = 1
+  hcntReloc : provCount c.appLenProviders .Mbi_MixinRelocTable = (if c.has .Mbi_MixinRelocTable then 1 else 0)
+  happTable : c.hasAttr .app_table = c.has .Mbi_MixinRelocTable
+  hdis : c.hasAttr .disassembly_app_data = c.has .Mbi_MixinRelocTable
+  hla : c.hasAttr .load_address = c.has .Mbi_MixinLoadAddress
+  hsub : c.hasAttr .image_subtype = c.has .Mbi_MixinImageSubType
+  hver : c.hasAttr .image_version = c.has .Mbi_MixinImageVersion
+  hv2t : c.hasAttr .image_version_to_image_type = c.has .Mbi_MixinImageVersion
+  hhw : c.hasAttr .user_hw_key_enabled = c.has .Mbi_MixinHwKey
+  hks : c.hasAttr .key_store = true
+  hhmac : c.hasAttr .hmac_key = c.has .Mbi_MixinHmac
+  hbca : c.hasAttr .bca = false
+  hfcf : c.hasAttr .fcf = false
+  hdisasm : c.resolve .disassemble_image = some .Mbi_ExportMixinAppTrustZoneCertBlockEncrypt
+  henc : c.resolve .encrypt = some .Mbi_ExportMixinAppTrustZoneCertBlockEncrypt
+  hpenc : c.resolve .post_encrypt = some .Mbi_ExportMixinAppTrustZoneCertBlockEncrypt
+  hfin : c.resolve .finalize = some .Mbi_ExportMixinHmacKeyStoreFinalize
+  hsign : c.signKind = .rsa
+  htype : c.imageType ≠ 0
+  hV1 : c.has .Mbi_MixinCertBlockV1 = true
+  hV21 : c.has .Mbi_MixinCertBlockV21 = false
+  hcert : c.hasAttr .cert_block = true
+  hTz : c.has .Mbi_MixinTrustZone = true
+  hmk : c.manifestKind = none
+  hCtr : c.has .Mbi_MixinCtrInitVector = true
+  hHmacM : c.has .Mbi_MixinHmacMandatory = true
+  hKs : c.has .Mbi_MixinKeyStore = true
+  hcoll : c.resolve .collect_data = some .Mbi_ExportMixinAppTrustZoneCertBlockEncrypt
+  hlen : lenProvidersAre c.lenProviders ([.Mbi_MixinApp, .Mbi_MixinTrustZone, .Mbi_MixinCertBlockV1, .Mbi_MixinHmac,
+            .Mbi_MixinKeyStore] ++ optList (c.has .Mbi_MixinRelocTable) .Mbi_MixinRelocTable) = true
+
+theorem encCls (h : ClassWF c = true) (hf : c.family = some .encrypted) : EncCls c := by
+  unfold ClassWF at h
+  simp only [Bool.and_eq_true, hf, and_assoc] at h
+  obtain ⟨a1, a2, a3, a4, a5, a6, a7, a8, a9, a10, a11, a12, a13, a14, a15, a16, a17, a18, a19, a20, a21,
+    b1, b2, b3, b4, b5, b6, b7, b8, b9, b10, b10', b11, b12, b13, b14, b15⟩ := h
+  refine { himgType := by simpa using a1, htzSize := by simpa using a2, hivt := a3, hclean := a4, hApp := a6,
+           horder := a7, hallApp := a8, hcntApp := by simpa using a9, hcntReloc := by simpa using a10,
+           happTable := by simpa using a11, hdis := by simpa using a12, hla := by simpa using a13,
+           hsub := by simpa using a14, hver := by simpa using a15, hv2t := by simpa using a16,
+           hhw := by simpa using a17, hks := by simpa [b14] using a18, hhmac := by simpa using a19,
+           hbca := by simpa using a20, hfcf := by simpa using a21, hdisasm := by simpa using b1,
+           henc := by simpa using b2, hpenc := by simpa using b3, hfin := by simpa using b4,
+           hsign := by simpa using b5, htype := by simpa using b6, hV1 := b7, hV21 := by simpa using b8,
+           hcert := b9, hTz := b10, hmk := by simpa using b11, hCtr := b12, hHmacM := b13, hKs := b14,
+           hcoll := ?_, hlen := b15 }
+  clear a8 a9 a10 b15
+  unfold Cls.family at hf
+  split at hf <;> first | assumption | (exact absurd hf (by simp))
+
+/-! ### mixin-level facts (decided over the 40 mixin names) -/
+
+theorem encrypted_has_mono (b1 b2 : MixinName) (hd : ∀ m, derivesFrom m b1 = true → derivesFrom m b2 = true)
+    (h : c.has b1 = true) : c.has b2 = true := by
+  unfold Cls.has at h ⊢
+  rw [List.any_eq_true] at h ⊢
+  obtain ⟨m, hm, hb⟩ := h
+  exact ⟨m, hm, hd m hb⟩
+
+theorem encrypted_has_mem (base : MixinName) (h : c.has base = true) : ∃ m ∈ c.mixins, derivesFrom m base = true := by
+  unfold Cls.has at h
+  rw [List.any_eq_true] at h
+  exact h
+
+theorem EncCls.hHmac (hc : EncCls c) : c.has .Mbi_MixinHmac = true :=
+  encrypted_has_mono .Mbi_MixinHmacMandatory .Mbi_MixinHmac (by intro m; cases m <;> decide) hc.hHmacM
+
+theorem encrypted_hasTrustZone (hc : EncCls c) : c.hasTrustZone = true := by
+  unfold Cls.hasTrustZone; rw [hc.hTz]; simp
+
+/-- what `cfgWF` says for a class of the encrypted family -/
+structure EncCfg (c : Cls) (cfg : Cfg) : Prop where
+  hval : validate c cfg = .ok ()
+  hpack : packGuard c cfg = .ok ()
+  hla : cfg.loadAddress < 2 ^ 32
+  hiv : cfg.imageVersion < 2 ^ 16
+  hst : cfg.subType ≤ subTypeMask
+  hflags : flagsOf c cfg < 2 ^ 32
+  htz : ∀ d, cfg.tz = .custom d → d.length = c.tzSize ∧ c.tzSize > 0
+  hreloc : ∀ es, cfg.reloc = some es → (∀ e ∈ es, relocEntryOk e = true) ∧ c.has .Mbi_MixinRelocTable = true ∧ es ≠ []
+  hks : ∀ k, cfg.keyStore = some k → k.length = keyStoreSize
+  hhmac : ∃ k, cfg.hmacKey = some k ∧ k.length = hmacKeyLength
+  hctr : cfg.ctrIv.length = ctrInitVectorSize
+  happ : hmacOffset ≤ (appData cfg).length
+  hbca : cfg.bca = none
+  hfcf : cfg.fcf = none
+  hcertLen : certHeaderSize ≤ cfg.cert.length
+  hcertSig : cfg.cert.take 4 = certHeaderSignature
+  hcertHdr : rd32 cfg.cert 8 = certHeaderSize
+  hcertSize : certV1Size cfg.cert = cfg.cert.length
+  hsigLen : cfg.sigLen > 0
+  hdigest : cfg.digest = none
+  hfw : cfg.fwVersion = 0
+  hnoIv : c.has .Mbi_MixinImageVersion = false → cfg.imageVersion = 0
+  hnoSub : c.has .Mbi_MixinImageSubType = false → cfg.subType = 0
+  hnoHw : c.has .Mbi_MixinHwKey = false → cfg.hwKey = false
+  hnoLa : c.has .Mbi_MixinLoadAddress = false → cfg.loadAddress = 0
+
+theorem encCfg (hc : EncCls c) (h : cfgWF c cfg = true) : EncCfg c cfg := by
+  unfold cfgWF at h
+  simp only [Bool.and_eq_true, and_assoc] at h
+  obtain ⟨a1, a2, a3, a4, a5, a6, a7, a8, a9, a10, a11, a12, a13, a14, a15, a16, a17, a18, a19, a20, a21, a22, a23,
+    a24, a25, a26, a27⟩ := h
+  have hHm := hc.hHmac
+  simp only [hc.hV1, hc.hV21, hc.hmk, hc.hCtr, hHm, hc.hKs] at *
+  have a17' : (certHeaderSize ≤ cfg.cert.length ∧ cfg.cert.take 4 = certHeaderSignature ∧ rd32 cfg.cert 8 = certHeaderSize
+      ∧ certV1Size cfg.cert = cfg.cert.length) ∧ cfg.sigLen > 0 := by simpa [and_assoc] using a17
+  refine { hval := by simpa using a1, hpack := by simpa using a2, hla := by simpa using a3, hiv := by simpa using a4,
+           hst := by simpa using a5, hflags := by simpa using a7, htz := ?_, hreloc := ?_,
+           hks := ?_, hhmac := ?_, hctr := by simpa using a13, happ := by simpa using a14,
+           hbca := by simpa using a15, hfcf := by simpa using a16,
+           hcertLen := a17'.1.1, hcertSig := a17'.1.2.1, hcertHdr := a17'.1.2.2.1, hcertSize := a17'.1.2.2.2,
+           hsigLen := a17'.2,
+           hdigest := by simpa using a20, hfw := by simpa using a22,
+           hnoIv := by intro hh; simpa [hh] using a23, hnoSub := by intro hh; simpa [hh] using a24,
+           hnoHw := by intro hh; simpa [hh] using a25, hnoLa := by intro hh; simpa [hh] using a26 }
+  · intro d hd; rw [hd] at a8; simpa using a8
+  · intro es hes; rw [hes] at a10
+    simp only [Bool.and_eq_true, List.all_eq_true, Bool.not_eq_true', List.isEmpty_eq_false_iff] at a10
+    exact ⟨a10.1.1, a10.1.2, a10.2⟩
+  · intro k hk; rw [hk] at a11; simpa using a11
+  · cases hk : cfg.hmacKey with
+    | none => rw [hk] at a12; simp at a12
+    | some k => rw [hk] at a12; exact ⟨k, rfl, by simpa using a12⟩
+
+/-! ### closed forms of the length sums -/
+
+theorem encrypted_reloc_none (hk : EncCfg c cfg) (h : c.has .Mbi_MixinRelocTable = false) : cfg.reloc = none := by
+  cases hr : cfg.reloc with
+  | none => rfl
+  | some es => have := (hk.hreloc es hr).2.1; rw [h] at this; exact absurd this (by simp)
+
+theorem encrypted_relocLen_zero (hk : EncCfg c cfg) (h : c.has .Mbi_MixinRelocTable = false) : relocLen c cfg = 0 := by
+  unfold relocLen; rw [encrypted_reloc_none hk h]
+
+theorem encrypted_appLen_count (a r : Nat) (l : List (Option MixinName)) :
+    (l.map (fun o => match o with
+      | some .Mbi_MixinApp => a | some .Mbi_MixinRelocTable => r | _ => 0)).sum
+      = a * l.count (some .Mbi_MixinApp) + r * l.count (some .Mbi_MixinRelocTable) := by
+  induction l with
+  | nil => simp
+  | cons o os ih =>
+    rw [List.map_cons, List.sum_cons, ih, List.count_cons, List.count_cons]
+    cases o with
+    | none => simp
+    | some m => cases m <;> simp [Nat.mul_add] <;> omega
+
+theorem encrypted_appLen (hc : EncCls c) (hk : EncCfg c cfg) : appLen c cfg = (appData cfg).length + relocLen c cfg := by
+  have e : appLen c cfg = (c.appLenProviders.map (fun o => match o with
+      | some .Mbi_MixinApp => (appData cfg).length | some .Mbi_MixinRelocTable => relocLen c cfg | _ => 0)).sum := by
+    unfold appLen Cls.appLenProviders
+    rw [List.map_map]
+    rfl
+  rw [e, encrypted_appLen_count]
+  have h1 := hc.hcntApp
+  have h2 := hc.hcntReloc
+  unfold provCount at h1 h2
+  rw [h1, h2]
+  cases hr : c.has .Mbi_MixinRelocTable
+  · simp [encrypted_relocLen_zero hk hr]
+  · simp
+
+theorem encrypted_totalLen_exp (c : Cls) (cfg : Cfg) (exp : List MixinName) (h : lenProvidersAre c.lenProviders exp = true) :
+    totalLen c cfg = (exp.map (mixLenOf c cfg)).sum := by
+  rw [← sum_of_lenProvidersAre _ _ (mixLenOf c cfg) h]
+  unfold totalLen Cls.lenProviders
+  rw [List.map_map]
+  rfl
+
+def encKsLen (cfg : Cfg) : Nat := (cfg.keyStore.getD []).length
+
+theorem encrypted_totalLen (hc : EncCls c) (hk : EncCfg c cfg) :
+    totalLen c cfg = (((appData cfg).length + relocLen c cfg + cfg.tz.bytes.length + cfg.cert.length + hmacSize
+        + encKsLen cfg : Nat) : Int) := by
+  rw [encrypted_totalLen_exp c cfg _ hc.hlen]
+  obtain ⟨k, hk1, _⟩ := hk.hhmac
+  cases hr : c.has .Mbi_MixinRelocTable
+  · have h2 := encrypted_relocLen_zero hk hr
+    cases hs : cfg.keyStore <;> simp [optList, mixLenOf, h2, hk1, hs, encKsLen] <;> omega
+  · cases hs : cfg.keyStore <;> simp [optList, mixLenOf, hk1, hs, encKsLen] <;> omega
+
+/-! ### the exported image in closed form -/
+
+def encU (c : Cls) (cfg : Cfg) : Bytes := updateIvt c cfg (appData cfg) (encImgLen c cfg) (appLen c cfg)
+def encR (cfg : Cfg) : Bytes :=
+  match cfg.reloc with
+  | some es => relocExport es (appData cfg).length
+  | none => []
+def encRaw (c : Cls) (cfg : Cfg) : Bytes := encU c cfg ++ encR cfg ++ cfg.tz.bytes
+def encKeyOf (co : CryptoOps) (cfg : Cfg) : Bytes := encKey co (cfg.hmacKey.getD []) cfg.keyStore.isSome
+def encEnc (co : CryptoOps) (c : Cls) (cfg : Cfg) : Bytes := ctrXor co (encKeyOf co cfg) cfg.ctrIv (encRaw c cfg)
+def encIvtOf (co : CryptoOps) (c : Cls) (cfg : Cfg) : Bytes :=
+  updateIvt c cfg ((encEnc co c cfg).take hmacOffset) (encImgLen c cfg) (appLen c cfg)
+/-- everything behind the (HMAC, key store) in the final image except the signature -/
+def encBody (co : CryptoOps) (c : Cls) (cfg : Cfg) : Bytes :=
+  slice (encEnc co c cfg) hmacOffset (appLen c cfg) ++ certInImage c cfg ++ (encEnc co c cfg).take encIvtCopySize
+    ++ cfg.ctrIv ++ (encEnc co c cfg).drop (appLen c cfg)
+def encPe (co : CryptoOps) (c : Cls) (cfg : Cfg) : Bytes := encIvtOf co c cfg ++ encBody co c cfg
+def encImg (co : CryptoOps) (c : Cls) (cfg : Cfg) (signer : Signer) : Bytes :=
+  encIvtOf co c cfg ++ computeHmac co cfg (encIvtOf co c cfg) ++ (cfg.keyStore.getD []) ++ encBody co c cfg
+    ++ signer (encPe co c cfg)
+
+theorem encrypted_app_ivt (hk : EncCfg c cfg) : minIvtSize ≤ (appData cfg).length := by
+  have := hk.happ; simp only [hmacOffset] at this; simp only [minIvtSize]; omega
+
+theorem encU_length (hk : EncCfg c cfg) : (encU c cfg).length = (appData cfg).length :=
+  updateIvt_length c cfg _ _ _ (encrypted_app_ivt hk)
+
+theorem encR_length (c : Cls) (cfg : Cfg) : (encR cfg).length = relocLen c cfg := by
+  unfold encR relocLen
+  cases cfg.reloc with
+  | none => rfl
+  | some es => exact relocExport_length_indep es _ _
+
+theorem encrypted_tab (hc : EncCls c) (hk : EncCfg c cfg) :
+    (if c.hasAttr .app_table = true then cfg.reloc else none) = cfg.reloc := by
+  rw [hc.happTable]
+  cases hr : c.has .Mbi_MixinRelocTable
+  · simp [encrypted_reloc_none hk hr]
+  · simp
+
+theorem encRaw_length (hc : EncCls c) (hk : EncCfg c cfg) :
+    (encRaw c cfg).length = appLen c cfg + cfg.tz.bytes.length := by
+  unfold encRaw
+  simp only [List.length_append, encU_length hk, encR_length c cfg, encrypted_appLen hc hk]
+
+theorem encEnc_length (hl : CryptoLaws co) (hc : EncCls c) (hk : EncCfg c cfg) :
+    (encEnc co c cfg).length = appLen c cfg + cfg.tz.bytes.length := by
+  unfold encEnc; rw [ctrXor_length hl, encRaw_length hc hk]
+
+theorem encrypted_appLen_ge (hc : EncCls c) (hk : EncCfg c cfg) : hmacOffset ≤ appLen c cfg := by
+  rw [encrypted_appLen hc hk]; have := hk.happ; omega
+
+theorem encIvtOf_length (hl : CryptoLaws co) (hc : EncCls c) (hk : EncCfg c cfg) : (encIvtOf co c cfg).length = hmacOffset := by
+  have h1 := encEnc_length hl hc hk
+  have h2 := encrypted_appLen_ge hc hk
+  simp only [hmacOffset] at *
+  unfold encIvtOf
+  rw [updateIvt_length _ _ _ _ _ (by simp [minIvtSize, hmacOffset]; omega)]
+  simp [hmacOffset]; omega
+
+theorem encrypted_cert_ne (hk : EncCfg c cfg) : cfg.cert.isEmpty = false := by
+  have := hk.hcertLen
+  cases h : cfg.cert with
+  | nil => rw [h] at this; simp [certHeaderSize] at this
+  | cons a l => rfl
+
+theorem encrypted_collect (hc : EncCls c) (hk : EncCfg c cfg) : collect c cfg = .ok (encRaw c cfg) := by
+  have hlen := hk.happ
+  have hne : (appData cfg).isEmpty = false := by
+    cases h : appData cfg with
+    | nil => rw [h] at hlen; simp [hmacOffset] at hlen
+    | cons a l => rfl
+  unfold collect
+  rw [hc.hcoll]
+  simp only
+  unfold collectEncrypt
+  simp only [hne, encrypted_cert_ne hk, encrypted_tab hc hk, Bool.false_eq_true, or_self, if_false]
+  unfold encRaw encR
+  cases hr : cfg.reloc with
+  | none => rfl
+  | some es => simp only [encU, updateIvt_length c cfg _ _ _ (encrypted_app_ivt hk)]
+
+theorem encrypted_certInImage (hl : CryptoLaws co) (hc : EncCls c) (hk : EncCfg c cfg) :
+    certSetImageLength cfg.cert ((encEnc co c cfg).length + cfg.cert.length + encIvtCopySize + cfg.ctrIv.length)
+      = certInImage c cfg := by
+  have e : (encEnc co c cfg).length = (appData cfg).length + (match cfg.reloc with
+      | some es => (relocExport es 0).length | none => 0) + cfg.tz.bytes.length := by
+    rw [encEnc_length hl hc hk, encrypted_appLen hc hk]
+    rfl
+  unfold certInImage
+  rw [hc.hpenc]
+  simp only [encrypted_tab hc hk]
+  rw [e]
+  cases cfg.reloc <;> rfl
+
+theorem encrypted_iv_ne (hk : EncCfg c cfg) : cfg.ctrIv.isEmpty = false := by
+  have := hk.hctr
+  cases h : cfg.ctrIv with
+  | nil => rw [h] at this; simp [ctrInitVectorSize] at this
+  | cons a l => rfl
+
+theorem encrypted_export (hl : CryptoLaws co) (hc : EncCls c) (hk : EncCfg c cfg) (signer : Signer) :
+    exportImage co c cfg signer = .ok (encImg co c cfg signer) := by
+  obtain ⟨k, hk1, _⟩ := hk.hhmac
+  have hkey : encKey co k cfg.keyStore.isSome = encKeyOf co cfg := by simp [encKeyOf, hk1]
+  have hE : encryptStage co c cfg (encRaw c cfg) = .ok (encEnc co c cfg) := by
+    unfold encryptStage
+    rw [hc.henc]
+    simp only [hk1, encrypted_iv_ne hk, Bool.false_eq_true, if_false, hkey]
+    rfl
+  have htzd : (if cfg.tz.bytes.isEmpty = true then [] else (encEnc co c cfg).drop (appLen c cfg))
+      = (encEnc co c cfg).drop (appLen c cfg) := by
+    split
+    · rename_i h0
+      rw [List.isEmpty_iff] at h0
+      rw [List.drop_of_length_le]
+      rw [encEnc_length hl hc hk, h0]; simp
+    · rfl
+  have hP : postEncryptStage c cfg (encEnc co c cfg) = .ok (encPe co c cfg) := by
+    unfold postEncryptStage
+    rw [hc.hpenc]
+    simp only [encrypted_cert_ne hk, Bool.false_eq_true, if_false, encrypted_certInImage hl hc hk, htzd]
+    unfold encPe encBody encIvtOf
+    simp only [List.append_assoc]
+  have hS : signStage c signer (encPe co c cfg) = .ok (encPe co c cfg ++ signer (encPe co c cfg)) := by
+    unfold signStage; rw [hc.hsign]
+  have hI := encIvtOf_length hl hc hk
+  have hF : finalizeStage co c cfg (encPe co c cfg) (encPe co c cfg ++ signer (encPe co c cfg))
+      = .ok (encImg co c cfg signer) := by
+    unfold finalizeStage
+    rw [hc.hfin]
+    have e1 : (encPe co c cfg ++ signer (encPe co c cfg)).take hmacOffset = encIvtOf co c cfg := by
+      unfold encPe; rw [List.append_assoc, List.take_left' hI]
+    have e2 : (encPe co c cfg ++ signer (encPe co c cfg)).drop hmacOffset
+        = encBody co c cfg ++ signer (encPe co c cfg) := by
+      unfold encPe; rw [List.append_assoc, List.drop_left' hI]
+    have e3 : ¬ (encPe co c cfg ++ signer (encPe co c cfg)).length < hmacOffset := by
+      unfold encPe; simp only [List.length_append, hI]; omega
+    simp only [e1, e2, e3, if_false]
+    unfold encImg
+    simp only [List.append_assoc]
+  unfold exportImage
+  simp only [hk.hval, hk.hpack, encrypted_collect hc hk, hE, hP, hS, hF, bind, Except.bind]
+
+/-! ### lengths -/
+
+theorem encrypted_certInImage_length (hc : EncCls c) (hk : EncCfg c cfg) : (certInImage c cfg).length = cfg.cert.length := by
+  have := hk.hcertLen
+  unfold certInImage
+  rw [hc.hpenc]
+  simp only [certSetImageLength]
+  apply setAt_length
+  simp only [le32_length, certImageLengthOffset, certHeaderSize] at *
+  omega
+
+theorem encrypted_computeHmac_length (hl : CryptoLaws co) (hk : EncCfg c cfg) (head : Bytes) :
+    (computeHmac co cfg head).length = hmacSize := by
+  obtain ⟨k, hk1, _⟩ := hk.hhmac
+  unfold computeHmac
+  rw [hk1]
+  simp only [hmac_length hl]
+  rfl
+
+theorem encBody_length (hl : CryptoLaws co) (hc : EncCls c) (hk : EncCfg c cfg) :
+    (encBody co c cfg).length = appLen c cfg - hmacOffset + cfg.cert.length + encIvtCopySize + encIvSize
+        + cfg.tz.bytes.length := by
+  have h1 := encEnc_length hl hc hk
+  have h2 := encrypted_appLen_ge hc hk
+  have h3 := hk.hctr
+  unfold encBody
+  simp only [List.length_append, slice_length, encrypted_certInImage_length hc hk, List.length_take, List.length_drop, h1, h3]
+  simp only [hmacOffset, encIvtCopySize, encIvSize, ctrInitVectorSize] at *
+  omega
+
+theorem encPe_length (hl : CryptoLaws co) (hc : EncCls c) (hk : EncCfg c cfg) :
+    (encPe co c cfg).length = appLen c cfg + cfg.cert.length + encIvtCopySize + encIvSize + cfg.tz.bytes.length := by
+  have h2 := encrypted_appLen_ge hc hk
+  unfold encPe
+  rw [List.length_append, encBody_length hl hc hk, encIvtOf_length hl hc hk]
+  omega
+
+theorem encImg_length (hl : CryptoLaws co) (hc : EncCls c) (hk : EncCfg c cfg) (signer : Signer)
+    (hs : ∀ m, (signer m).length = cfg.sigLen) :
+    (encImg co c cfg signer).length = appLen c cfg + hmacSize + encKsLen cfg + cfg.cert.length + encIvtCopySize + encIvSize
+        + cfg.tz.bytes.length + cfg.sigLen := by
+  have h2 := encrypted_appLen_ge hc hk
+  unfold encImg
+  simp only [List.length_append, encBody_length hl hc hk, encIvtOf_length hl hc hk, encrypted_computeHmac_length hl hk, hs, encKsLen]
+  omega
+
+theorem encImg_length_total (hl : CryptoLaws co) (hc : EncCls c) (hk : EncCfg c cfg) (signer : Signer)
+    (hs : ∀ m, (signer m).length = cfg.sigLen) :
+    (encImg co c cfg signer).length = encImgLen c cfg := by
+  rw [encImg_length hl hc hk signer hs]
+  unfold encImgLen
+  rw [encrypted_totalLen hc hk, encrypted_appLen hc hk]
+  simp only [Int.toNat_natCast]
+  omega
+
+theorem encImgLen_lt (hc : EncCls c) (hk : EncCfg c cfg) : encImgLen c cfg < 2 ^ 32 := by
+  have h := hk.hpack
+  unfold packGuard at h
+  split at h
+  · exact absurd h (by simp)
+  · rename_i hn
+    simp only [not_or] at hn
+    have h1 := hn.2.1
+    have h2 := hn.1
+    unfold encImgLen
+    rw [encrypted_totalLen hc hk] at *
+    simp only [Int.toNat_natCast]
+    omega
+
+/-! ### header words and flag fields -/
+
+theorem encrypted_appLen_lt (hc : EncCls c) (hk : EncCfg c cfg) : appLen c cfg < 2 ^ 32 := by
+  have h1 := encImgLen_lt hc hk
+  unfold encImgLen at h1
+  rw [encrypted_totalLen hc hk] at h1
+  simp only [Int.toNat_natCast] at h1
+  rw [encrypted_appLen hc hk]
+  omega
+
+/-- the four IVT words of an image that starts with the encrypted, updated IVT -/
+theorem encIvtOf_words (hl : CryptoLaws co) (hc : EncCls c) (hk : EncCfg c cfg) (rest : Bytes) :
+    rd32 (encIvtOf co c cfg ++ rest) ivtImageLengthOffset = (if c.zeroTotalLength then 0 else encImgLen c cfg)
+    ∧ rd32 (encIvtOf co c cfg ++ rest) ivtImageFlagsOffset = flagsOf c cfg
+    ∧ rd32 (encIvtOf co c cfg ++ rest) ivtCrcCertificateOffset = appLen c cfg
+    ∧ rd32 (encIvtOf co c cfg ++ rest) ivtLoadAddrOffset = (if c.has .Mbi_MixinLoadAddress then cfg.loadAddress else 0) := by
+  have h1 := encEnc_length hl hc hk
+  have h2 := encrypted_appLen_ge hc hk
+  have hA : minIvtSize ≤ ((encEnc co c cfg).take hmacOffset).length := by
+    simp only [hmacOffset, minIvtSize, List.length_take] at *; omega
+  have hw := updateIvt_words c cfg ((encEnc co c cfg).take hmacOffset) (encImgLen c cfg) (appLen c cfg) hA hk.hflags
+    (encImgLen_lt hc hk) (encrypted_appLen_lt hc hk) hk.hla
+  simp only [hc.hla, hc.htype, if_false] at hw
+  unfold encIvtOf
+  rw [rd32_updateIvt_append _ _ _ _ _ _ _ hA (by decide), rd32_updateIvt_append _ _ _ _ _ _ _ hA (by decide),
+    rd32_updateIvt_append _ _ _ _ _ _ _ hA (by decide), rd32_updateIvt_append _ _ _ _ _ _ _ hA (by decide)]
+  exact hw
+
+theorem encImg_eq_head (co : CryptoOps) (c : Cls) (cfg : Cfg) (signer : Signer) :
+    encImg co c cfg signer = encIvtOf co c cfg ++ (computeHmac co cfg (encIvtOf co c cfg) ++ (cfg.keyStore.getD [])
+      ++ encBody co c cfg ++ signer (encPe co c cfg)) := by
+  unfold encImg; simp only [List.append_assoc]
+
+theorem encrypted_imgVer_le (hk : EncCfg c cfg) : cfg.imageVersion ≤ imgVerMask := by
+  have := hk.hiv; simp only [imgVerMask]; omega
+
+theorem encrypted_tzTag_le (cfg : Cfg) : cfg.tz.tag ≤ tzTypeMask := by
+  cases cfg.tz <;> simp [TzCfg.tag, tzTypeMask, tzEnabled, tzCustom, tzDisabled]
+
+theorem encrypted_flag_fields_aux (hc : EncCls c) (hk : EncCfg c cfg) (n : Nat) (hn : cfg.keyStore.isSome = true → n > 0) :
+    let f := createFlags c.imageType c.hasTrustZone cfg.tz.tag (c.hasAttr .image_subtype) cfg.subType
+      (c.hasAttr .user_hw_key_enabled) cfg.hwKey (c.hasAttr .key_store) cfg.keyStore.isSome n
+      (c.hasAttr .app_table) cfg.reloc.isSome (c.hasAttr .image_version) cfg.imageVersion
+      (c.hasAttr .image_version_to_image_type) true
+    getTzType f = cfg.tz.tag
+    ∧ getSubType f = (if c.has .Mbi_MixinImageSubType then cfg.subType else 0)
+    ∧ getHwKeyEnabled f = (c.has .Mbi_MixinHwKey && cfg.hwKey)
+    ∧ getKeyStorePresented f = cfg.keyStore.isSome
+    ∧ getAppTablePresented f = cfg.reloc.isSome
+    ∧ getImageVersion f = (if c.has .Mbi_MixinImageVersion then cfg.imageVersion else 0) := by
+  have h := flags_fields c.imageType cfg.tz.tag cfg.subType cfg.imageVersion n
+    c.hasTrustZone (c.hasAttr .image_subtype) (c.hasAttr .user_hw_key_enabled) cfg.hwKey (c.hasAttr .key_store)
+    cfg.keyStore.isSome (c.hasAttr .app_table) cfg.reloc.isSome (c.hasAttr .image_version)
+    (c.hasAttr .image_version_to_image_type) true hc.himgType (encrypted_tzTag_le cfg) hk.hst (encrypted_imgVer_le hk)
+  obtain ⟨_, h2, h3, h4, h5, h6, h7, _⟩ := h
+  intro f
+  refine ⟨?_, ?_, ?_, ?_, ?_, ?_⟩
+  · rw [h2, encrypted_hasTrustZone hc]; rfl
+  · rw [h3, hc.hsub]
+  · rw [h4, hc.hhw]
+  · rw [h5, hc.hks]
+    cases hs : cfg.keyStore.isSome with
+    | false => rfl
+    | true => have := hn hs; simp [this]
+  · rw [h6, hc.happTable]
+    cases hr : c.has .Mbi_MixinRelocTable
+    · simp [encrypted_reloc_none hk hr]
+    · simp
+  · rw [h7, hc.hver, hc.hv2t]; simp
+
+/-- the fields of the flag word of the image -/
+theorem encrypted_flag_fields (hc : EncCls c) (hk : EncCfg c cfg) :
+    getTzType (flagsOf c cfg) = cfg.tz.tag
+    ∧ getSubType (flagsOf c cfg) = (if c.has .Mbi_MixinImageSubType then cfg.subType else 0)
+    ∧ getHwKeyEnabled (flagsOf c cfg) = (c.has .Mbi_MixinHwKey && cfg.hwKey)
+    ∧ getKeyStorePresented (flagsOf c cfg) = cfg.keyStore.isSome
+    ∧ getAppTablePresented (flagsOf c cfg) = cfg.reloc.isSome
+    ∧ getImageVersion (flagsOf c cfg) = (if c.has .Mbi_MixinImageVersion then cfg.imageVersion else 0) := by
+  unfold flagsOf
+  refine encrypted_flag_fields_aux hc hk _ ?_
+  intro h
+  cases hs : cfg.keyStore with
+  | none => rw [hs] at h; simp at h
+  | some k => have := hk.hks k hs; simp [this, keyStoreSize]
+
+theorem encKsLen_eq (hk : EncCfg c cfg) : encKsLen cfg = if cfg.keyStore.isSome then keyStoreSize else 0 := by
+  unfold encKsLen
+  cases hs : cfg.keyStore with
+  | none => rfl
+  | some k => simpa using hk.hks k hs
+
+theorem encImg_flagsIn (hl : CryptoLaws co) (hc : EncCls c) (hk : EncCfg c cfg) (signer : Signer) :
+    flagsIn (encImg co c cfg signer) = flagsOf c cfg := by
+  rw [encImg_eq_head]; exact (encIvtOf_words hl hc hk _).2.1
+
+theorem encrypted_hmacShift (hl : CryptoLaws co) (hc : EncCls c) (hk : EncCfg c cfg) (signer : Signer) :
+    hmacShift c (encImg co c cfg signer) = hmacSize + encKsLen cfg := by
+  unfold hmacShift
+  rw [hc.hhmac, hc.hHmac, encImg_flagsIn hl hc hk, (encrypted_flag_fields hc hk).2.2.2.1, encKsLen_eq hk]
+  simp
+
+theorem encrypted_certOffset (hl : CryptoLaws co) (hc : EncCls c) (hk : EncCfg c cfg) (signer : Signer)
+    (hs : ∀ m, (signer m).length = cfg.sigLen) :
+    certOffsetChecked c (encImg co c cfg signer) = .ok (appLen c cfg) := by
+  have hlen := encImg_length_total hl hc hk signer hs
+  have hw := encIvtOf_words hl hc hk (computeHmac co cfg (encIvtOf co c cfg) ++ (cfg.keyStore.getD [])
+      ++ encBody co c cfg ++ signer (encPe co c cfg))
+  rw [← encImg_eq_head] at hw
+  have hge : minIvtSize ≤ (encImg co c cfg signer).length := by
+    rw [encImg_length hl hc hk signer hs]
+    have := encrypted_appLen_ge hc hk
+    simp only [minIvtSize, hmacOffset] at *; omega
+  have ht : rd32 (encImg co c cfg signer) ivtImageLengthOffset ≤ (encImg co c cfg signer).length := by
+    rw [hw.1, hlen]; split <;> omega
+  have hct : checkTotalLength c (encImg co c cfg signer) = .ok () := by
+    unfold checkTotalLength
+    simp only
+    split
+    · rw [if_neg (by omega)]
+    · rw [if_neg (by omega), if_neg (by omega)]
+  unfold certOffsetChecked
+  simp only [hct, hw.2.2.1, bind, Except.bind, pure, Except.pure]
+
+/-! ### byte layout of the final image -/
+
+theorem encrypted_drop_of_split (e pre post : Bytes) (n : Nat) (h : e = pre ++ post) (hn : pre.length = n) :
+    e.drop n = post := by
+  subst h; exact List.drop_left' hn
+
+theorem encrypted_take_of_split (e pre post : Bytes) (n : Nat) (h : e = pre ++ post) (hn : pre.length = n) :
+    e.take n = pre := by
+  subst h; exact List.take_left' hn
+
+theorem encrypted_slice_of_split (e pre w post : Bytes) (i j : Nat) (h : e = pre ++ w ++ post) (hi : pre.length = i)
+    (hj : i + w.length = j) : slice e i j = w := by
+  subst h; subst hi; subst hj; exact slice_append_mid _ _ _
+
+structure EncLens (co : CryptoOps) (c : Cls) (cfg : Cfg) (signer : Signer) : Prop where
+  hL : hmacOffset ≤ appLen c cfg
+  hivt : (encIvtOf co c cfg).length = hmacOffset
+  hmac : (computeHmac co cfg (encIvtOf co c cfg)).length = hmacSize
+  hks : (cfg.keyStore.getD []).length = encKsLen cfg
+  hmid : (slice (encEnc co c cfg) hmacOffset (appLen c cfg)).length = appLen c cfg - hmacOffset
+  hcert : (certInImage c cfg).length = cfg.cert.length
+  hcopy : ((encEnc co c cfg).take encIvtCopySize).length = encIvtCopySize
+  hiv : cfg.ctrIv.length = encIvSize
+  htz : ((encEnc co c cfg).drop (appLen c cfg)).length = cfg.tz.bytes.length
+  hsig : (signer (encPe co c cfg)).length = cfg.sigLen
+
+theorem encLens (hl : CryptoLaws co) (hc : EncCls c) (hk : EncCfg c cfg) (signer : Signer)
+    (hs : ∀ m, (signer m).length = cfg.sigLen) : EncLens co c cfg signer := by
+  have h1 := encEnc_length hl hc hk
+  have h2 := encrypted_appLen_ge hc hk
+  refine ⟨h2, encIvtOf_length hl hc hk, encrypted_computeHmac_length hl hk _, rfl, ?_, encrypted_certInImage_length hc hk, ?_, hk.hctr, ?_, hs _⟩
+  · rw [slice_length, h1]; omega
+  · rw [List.length_take, h1]; simp only [encIvtCopySize, hmacOffset] at *; omega
+  · rw [List.length_drop, h1]; omega
+
+theorem encImg_split (co : CryptoOps) (c : Cls) (cfg : Cfg) (signer : Signer) :
+    encImg co c cfg signer = encIvtOf co c cfg ++ computeHmac co cfg (encIvtOf co c cfg) ++ (cfg.keyStore.getD [])
+      ++ slice (encEnc co c cfg) hmacOffset (appLen c cfg) ++ certInImage c cfg ++ (encEnc co c cfg).take encIvtCopySize
+      ++ cfg.ctrIv ++ (encEnc co c cfg).drop (appLen c cfg) ++ signer (encPe co c cfg) := by
+  unfold encImg encBody; simp only [List.append_assoc]
+
+theorem encImg_drop_cert (hn : EncLens co c cfg signer) :
+    (encImg co c cfg signer).drop (appLen c cfg + (hmacSize + encKsLen cfg))
+      = certInImage c cfg ++ ((encEnc co c cfg).take encIvtCopySize ++ cfg.ctrIv
+          ++ (encEnc co c cfg).drop (appLen c cfg) ++ signer (encPe co c cfg)) := by
+  apply encrypted_drop_of_split _ (encIvtOf co c cfg ++ computeHmac co cfg (encIvtOf co c cfg) ++ (cfg.keyStore.getD [])
+      ++ slice (encEnc co c cfg) hmacOffset (appLen c cfg))
+  · rw [encImg_split]; simp only [List.append_assoc]
+  · have := hn.hL
+    simp only [List.length_append, hn.hivt, hn.hmac, hn.hks, hn.hmid]; omega
+
+theorem encImg_slice_ks (hn : EncLens co c cfg signer) :
+    slice (encImg co c cfg signer) (hmacOffset + hmacSize) (hmacOffset + hmacSize + encKsLen cfg) = cfg.keyStore.getD [] := by
+  apply encrypted_slice_of_split _ (encIvtOf co c cfg ++ computeHmac co cfg (encIvtOf co c cfg)) _
+    (slice (encEnc co c cfg) hmacOffset (appLen c cfg) ++ certInImage c cfg ++ (encEnc co c cfg).take encIvtCopySize
+      ++ cfg.ctrIv ++ (encEnc co c cfg).drop (appLen c cfg) ++ signer (encPe co c cfg))
+  · rw [encImg_split]; simp only [List.append_assoc]
+  · simp only [List.length_append, hn.hivt, hn.hmac]
+  · rw [hn.hks]
+
+theorem encImg_slice_iv (hn : EncLens co c cfg signer) :
+    slice (encImg co c cfg signer) (appLen c cfg + cfg.cert.length + encIvtCopySize + (hmacSize + encKsLen cfg))
+      (appLen c cfg + cfg.cert.length + encIvtCopySize + (hmacSize + encKsLen cfg) + ctrInitVectorSize) = cfg.ctrIv := by
+  apply encrypted_slice_of_split _ (encIvtOf co c cfg ++ computeHmac co cfg (encIvtOf co c cfg) ++ (cfg.keyStore.getD [])
+      ++ slice (encEnc co c cfg) hmacOffset (appLen c cfg) ++ certInImage c cfg ++ (encEnc co c cfg).take encIvtCopySize) _
+    ((encEnc co c cfg).drop (appLen c cfg) ++ signer (encPe co c cfg))
+  · rw [encImg_split]; simp only [List.append_assoc]
+  · have := hn.hL
+    simp only [List.length_append, hn.hivt, hn.hmac, hn.hks, hn.hmid, hn.hcert, hn.hcopy]; omega
+  · rw [hn.hiv]; rfl
+
+theorem encImg_take_ivt (hn : EncLens co c cfg signer) :
+    (encImg co c cfg signer).take hmacOffset = encIvtOf co c cfg :=
+  encrypted_take_of_split _ _ _ _ (encImg_eq_head co c cfg signer) hn.hivt
+
+theorem encImg_drop_body (hn : EncLens co c cfg signer) :
+    (encImg co c cfg signer).drop (hmacOffset + hmacSize + encKsLen cfg) = encBody co c cfg ++ signer (encPe co c cfg) := by
+  apply encrypted_drop_of_split _ (encIvtOf co c cfg ++ computeHmac co cfg (encIvtOf co c cfg) ++ (cfg.keyStore.getD []))
+  · unfold encImg; simp only [List.append_assoc]
+  · simp only [List.length_append, hn.hivt, hn.hmac, hn.hks]
+
+theorem encImg_len (hn : EncLens co c cfg signer) :
+    (encImg co c cfg signer).length = appLen c cfg + hmacSize + encKsLen cfg + cfg.cert.length + encIvtCopySize + encIvSize
+        + cfg.tz.bytes.length + cfg.sigLen := by
+  have := hn.hL
+  rw [encImg_split]
+  simp only [List.length_append, hn.hivt, hn.hmac, hn.hks, hn.hmid, hn.hcert, hn.hcopy, hn.hiv, hn.htz, hn.hsig]
+  omega
+
+theorem encImg_slice_cert (hn : EncLens co c cfg signer) :
+    slice (encImg co c cfg signer) (appLen c cfg + (hmacSize + encKsLen cfg))
+      (appLen c cfg + (hmacSize + encKsLen cfg) + cfg.cert.length) = certInImage c cfg := by
+  apply encrypted_slice_of_split _ (encIvtOf co c cfg ++ computeHmac co cfg (encIvtOf co c cfg) ++ (cfg.keyStore.getD [])
+      ++ slice (encEnc co c cfg) hmacOffset (appLen c cfg)) _
+    ((encEnc co c cfg).take encIvtCopySize ++ cfg.ctrIv ++ (encEnc co c cfg).drop (appLen c cfg) ++ signer (encPe co c cfg))
+  · rw [encImg_split]; simp only [List.append_assoc]
+  · have := hn.hL
+    simp only [List.length_append, hn.hivt, hn.hmac, hn.hks, hn.hmid]; omega
+  · rw [hn.hcert]
+
+theorem encImg_words (hl : CryptoLaws co) (hc : EncCls c) (hk : EncCfg c cfg) (signer : Signer) :
+    rd32 (encImg co c cfg signer) ivtImageLengthOffset = (if c.zeroTotalLength then 0 else encImgLen c cfg)
+    ∧ rd32 (encImg co c cfg signer) ivtImageFlagsOffset = flagsOf c cfg
+    ∧ rd32 (encImg co c cfg signer) ivtCrcCertificateOffset = appLen c cfg
+    ∧ rd32 (encImg co c cfg signer) ivtLoadAddrOffset = (if c.has .Mbi_MixinLoadAddress then cfg.loadAddress else 0) := by
+  rw [encImg_eq_head]; exact encIvtOf_words hl hc hk _
+
+/-! ### the order of the `mix_parse` calls: the certificate block is parsed before its readers -/
+
+def encReadsCert (m : MixinName) : Bool := (preParsed m).contains .cert_block
+
+def encOrdered : Bool → List MixinName → Bool
+  | _, [] => true
+  | d, m :: ms => (!encReadsCert m || d) && encOrdered (d || setsCert m) ms
+
+theorem encrypted_mustWait (hcb : c.hasAttr .cert_block = true) (m : MixinName) (hr : encReadsCert m = true) :
+    mustWait c false m = true := by
+  unfold mustWait
+  rw [List.any_eq_true]
+  refine ⟨.cert_block, ?_, by simp [hcb]⟩
+  simpa [encReadsCert] using hr
+
+theorem encrypted_parseRound_ordered (hcb : c.hasAttr .cert_block = true) :
+    ∀ (todo : List MixinName) (d : Bool) (l : List MixinName), encOrdered (parseRound c todo d).2.2 l = true →
+      encOrdered d ((parseRound c todo d).1 ++ l) = true := by
+  intro todo
+  induction todo with
+  | nil => intro d l h; simpa [parseRound] using h
+  | cons m ms ih =>
+    intro d l h
+    by_cases hw : mustWait c d m = true
+    · rcases hpr : parseRound c ms d with ⟨o, w, d'⟩
+      have e : parseRound c (m :: ms) d = (o, m :: w, d') := by simp [parseRound, hw, hpr]
+      rw [e] at h ⊢
+      have := ih d l
+      rw [hpr] at this
+      exact this h
+    · rcases hpr : parseRound c ms (d || setsCert m) with ⟨o, w, d'⟩
+      have e : parseRound c (m :: ms) d = (m :: o, w, d') := by simp [parseRound, hw, hpr]
+      rw [e] at h ⊢
+      have := ih (d || setsCert m) l
+      rw [hpr] at this
+      have h2 := this h
+      show encOrdered d (m :: (o ++ l)) = true
+      unfold encOrdered
+      rw [Bool.and_eq_true]
+      refine ⟨?_, h2⟩
+      cases hr : encReadsCert m
+      · rfl
+      · cases d
+        · exact absurd (encrypted_mustWait hcb m hr) hw
+        · rfl
+
+theorem encrypted_parseRound_mem (todo : List MixinName) :
+    ∀ (d : Bool) (x : MixinName), x ∈ todo ↔ (x ∈ (parseRound c todo d).1 ∨ x ∈ (parseRound c todo d).2.1) := by
+  induction todo with
+  | nil => intro d x; simp [parseRound]
+  | cons m ms ih =>
+    intro d x
+    by_cases hw : mustWait c d m = true
+    · rcases hpr : parseRound c ms d with ⟨o, w, d'⟩
+      have e : parseRound c (m :: ms) d = (o, m :: w, d') := by simp [parseRound, hw, hpr]
+      have := ih d x
+      rw [hpr] at this
+      rw [e, List.mem_cons, this]
+      simp only [List.mem_cons]
+      grind
+    · rcases hpr : parseRound c ms (d || setsCert m) with ⟨o, w, d'⟩
+      have e : parseRound c (m :: ms) d = (m :: o, w, d') := by simp [parseRound, hw, hpr]
+      have := ih (d || setsCert m) x
+      rw [hpr] at this
+      rw [e, List.mem_cons, this]
+      simp only [List.mem_cons]
+      grind
+
+theorem encrypted_parseOrderF (hcb : c.hasAttr .cert_block = true) :
+    ∀ (f : Nat) (todo : List MixinName) (d : Bool) (order : List MixinName), parseOrderF c f todo d = some order →
+      encOrdered d order = true ∧ ∀ x, x ∈ todo ↔ x ∈ order := by
+  intro f
+  induction f with
+  | zero =>
+    intro todo d order h
+    cases todo with
+    | nil => simp [parseOrderF] at h; subst h; simp [encOrdered]
+    | cons t ts => simp [parseOrderF] at h
+  | succ f ih =>
+    intro todo d order h
+    cases todo with
+    | nil => simp [parseOrderF] at h; subst h; simp [encOrdered]
+    | cons t ts =>
+      rcases hpr : parseRound c (t :: ts) d with ⟨o, w, d'⟩
+      simp only [parseOrderF, hpr] at h
+      split at h
+      · exact absurd h (by simp)
+      · rw [Option.map_eq_some_iff] at h
+        obtain ⟨rest, hrest, rfl⟩ := h
+        obtain ⟨h1, h2⟩ := ih w d' rest hrest
+        refine ⟨?_, ?_⟩
+        · have := encrypted_parseRound_ordered hcb (t :: ts) d rest
+          rw [hpr] at this
+          exact this h1
+        · intro x
+          have := encrypted_parseRound_mem (c := c) (t :: ts) d x
+          rw [hpr] at this
+          rw [this, List.mem_append, h2 x]
+
+theorem encrypted_parseOrder (hcb : c.hasAttr .cert_block = true) (order : List MixinName) (h : parseOrder c = some order) :
+    encOrdered false order = true ∧ ∀ x, x ∈ c.dataMixins ↔ x ∈ order :=
+  encrypted_parseOrderF hcb _ _ _ _ h
+
+/-! ### disassembling the decrypted image -/
+
+theorem encU_flagsIn (hc : EncCls c) (hk : EncCfg c cfg) (rest : Bytes) : flagsIn (encU c cfg ++ rest) = flagsOf c cfg := by
+  have hA := encrypted_app_ivt hk
+  have hw := updateIvt_words c cfg (appData cfg) (encImgLen c cfg) (appLen c cfg) hA hk.hflags
+    (encImgLen_lt hc hk) (encrypted_appLen_lt hc hk) hk.hla
+  unfold flagsIn encU
+  rw [rd32_updateIvt_append _ _ _ _ _ _ _ hA (by decide)]
+  exact hw.2.1
+
+theorem encrypted_disApp (hc : EncCls c) (hk : EncCfg c cfg) (p : Parsed) (hr : p.reloc = none) :
+    disassemblyAppData c p (encU c cfg ++ encR cfg)
+      = .ok ({ p with reloc := if c.has .Mbi_MixinRelocTable then cfg.reloc else none }, encU c cfg) := by
+  have hfl : flagsIn (encU c cfg ++ encR cfg) = flagsOf c cfg := encU_flagsIn hc hk _
+  unfold disassemblyAppData
+  rw [hc.hdis, hfl, (encrypted_flag_fields hc hk).2.2.2.2.1]
+  cases hrt : c.has .Mbi_MixinRelocTable
+  · have hn := encrypted_reloc_none hk hrt
+    simp only [Bool.false_eq_true, if_false]
+    unfold encR
+    rw [hn]
+    simp [← hr]
+  · simp only [if_true]
+    cases hcr : cfg.reloc with
+    | none =>
+      unfold encR
+      rw [hcr]
+      simp
+    | some es =>
+      obtain ⟨hok, _, hne⟩ := hk.hreloc es hcr
+      have hlen : (encU c cfg).length + (relocExport es (encU c cfg).length).length < 2 ^ 32 := by
+        have h1 := encrypted_appLen_lt hc hk
+        have h2 := encrypted_appLen hc hk
+        have h3 := encR_length c cfg
+        rw [encU_length hk]
+        unfold encR at h3; rw [hcr] at h3; simp only at h3
+        rw [h3]
+        omega
+      have hrt' := reloc_roundtrip (encU c cfg) es hne hok hlen
+      unfold encR
+      rw [hcr]
+      simp only [Option.isSome_some, not_true_eq_false, if_false]
+      rw [← encU_length hk, hrt']
+      simp
+
+/-- the TrustZone setting the mixins parsed has the kind of the real one (custom data are still encrypted) -/
+def encTzLike (t cfgTz : TzCfg) : Prop :=
+  match cfgTz with
+  | .custom _ => ∃ x, t = .custom x
+  | u => t = u
+
+theorem encrypted_dropTz (c : Cls) (cfg : Cfg) :
+    (if cfg.tz.bytes.length = 0 then encRaw c cfg else dropLast (encRaw c cfg) cfg.tz.bytes.length)
+      = encU c cfg ++ encR cfg := by
+  unfold encRaw
+  split
+  · rename_i h0
+    rw [List.length_eq_zero_iff.mp h0, List.append_nil]
+  · unfold dropLast
+    rw [List.length_append, Nat.add_sub_cancel, List.take_append_of_le_length (Nat.le_refl _), List.take_length]
+
+theorem encTzLike_cases (t u : TzCfg) (h : encTzLike t u) :
+    (∃ d x, u = .custom d ∧ t = .custom x) ∨ (t = u ∧ (u = .enabled ∨ u = .disabled)) := by
+  unfold encTzLike at h
+  cases u with
+  | custom d => obtain ⟨x, hx⟩ := h; exact Or.inl ⟨d, x, rfl, hx⟩
+  | enabled => exact Or.inr ⟨h, Or.inl rfl⟩
+  | disabled => exact Or.inr ⟨h, Or.inr rfl⟩
+
+theorem encrypted_tzReparse (hk : EncCfg c cfg) (d : Bytes) (hz : cfg.tz = .custom d) :
+    tzFromBinary c (lastN (encRaw c cfg) c.tzSize) = .ok (.custom d) := by
+  obtain ⟨hd, _⟩ := hk.htz d hz
+  have : lastN (encRaw c cfg) c.tzSize = d := by
+    unfold lastN encRaw
+    rw [hz]
+    simp only [TzCfg.bytes]
+    rw [List.length_append, hd, Nat.add_sub_cancel, List.drop_left]
+  rw [this]
+  unfold tzFromBinary
+  rw [if_neg (by rw [hd]; omega), ← hd, List.take_length]
+
+theorem encrypted_disassemble (hc : EncCls c) (hk : EncCfg c cfg) (dek : Option Bytes)
+    (p : Parsed) (hp : encTzLike p.tz cfg.tz) (hr : p.reloc = none) :
+    disassemble c p (encRaw c cfg)
+      = .ok { p with tz := cfg.tz, app := (canon c cfg dek).app, reloc := (canon c cfg dek).reloc } := by
+  have hA := encrypted_app_ivt hk
+  have hcl : cleanIvt (encU c cfg) = cleanIvt (appData cfg) := cleanIvt_updateIvt c cfg _ _ _ hA
+  unfold disassemble
+  rw [hc.hdisasm]
+  rcases encTzLike_cases _ _ hp with ⟨d, x, hz, hpz⟩ | ⟨hpz, hz | hz⟩
+  · simp only [hpz, encrypted_tzReparse hk d hz, bind, Except.bind]
+    rw [← hz]
+    simp only [encrypted_dropTz c cfg, encrypted_disApp hc hk { p with tz := cfg.tz } hr, pure, Except.pure, hcl, canon,
+      hc.hclean, if_true]
+  · rw [hz] at hpz
+    simp only [hpz, bind, Except.bind, pure, Except.pure]
+    rw [← hz]
+    simp only [encrypted_dropTz c cfg, encrypted_disApp hc hk { p with tz := cfg.tz } hr, hcl, canon,
+      hc.hclean, if_true]
+  · rw [hz] at hpz
+    simp only [hpz, bind, Except.bind, pure, Except.pure]
+    rw [← hz]
+    simp only [encrypted_dropTz c cfg, encrypted_disApp hc hk { p with tz := cfg.tz } hr, hcl, canon,
+      hc.hclean, if_true]
+
+theorem encTzLike_refl (t : TzCfg) : encTzLike t t := by
+  cases t with
+  | custom d => exact ⟨d, rfl⟩
+  | enabled => rfl
+  | disabled => rfl
+
+/-! ### the four reverts -/
+
+theorem encrypted_finalizeRevert (hl : CryptoLaws co) (hc : EncCls c) (hk : EncCfg c cfg) (hn : EncLens co c cfg signer)
+    (p : Parsed) :
+    finalizeRevert c p (encImg co c cfg signer) = .ok (encPe co c cfg ++ signer (encPe co c cfg)) := by
+  unfold finalizeRevert
+  rw [hc.hfin]
+  simp only [encImg_flagsIn hl hc hk, (encrypted_flag_fields hc hk).2.2.2.1, ← encKsLen_eq hk, encImg_take_ivt hn,
+    encImg_drop_body hn]
+  unfold encPe
+  simp only [List.append_assoc]
+
+theorem encrypted_signRevert (hl : CryptoLaws co) (hc : EncCls c) (hk : EncCfg c cfg) (hn : EncLens co c cfg signer)
+    (p : Parsed) (ci : CertInfo) (hp : p.cert = some ci) (hv : ci.v1 = true) (hs : ci.sigSize = cfg.sigLen) :
+    signRevert c p (encPe co c cfg ++ signer (encPe co c cfg)) = .ok (encPe co c cfg) := by
+  have hne : (encPe co c cfg ++ signer (encPe co c cfg)).isEmpty = false := by
+    have := encPe_length hl hc hk
+    cases h : encPe co c cfg ++ signer (encPe co c cfg) with
+    | nil =>
+      have h2 := congrArg List.length h
+      simp only [List.length_append, List.length_nil, this, encIvtCopySize] at h2
+      omega
+    | cons a l => rfl
+  unfold signRevert
+  rw [hc.hsign]
+  simp only [hp, hne, hv, hs, Bool.false_eq_true, if_false, not_true_eq_false]
+  unfold dropLast
+  rw [List.length_append, hn.hsig, Nat.add_sub_cancel, List.take_left]
+
+theorem encrypted_take_append_slice (l : Bytes) (i j : Nat) (h : i ≤ j) : l.take i ++ slice l i j = l.take j := by
+  unfold slice
+  conv => rhs; rw [← List.take_append_drop i (l.take j)]
+  rw [List.take_take, Nat.min_eq_left h]
+
+theorem encIvtOf_drop (hn : EncLens co c cfg signer) (hl : CryptoLaws co) (hc : EncCls c) (hk : EncCfg c cfg) :
+    (encIvtOf co c cfg).drop encIvtCopySize = slice (encEnc co c cfg) encIvtCopySize hmacOffset := by
+  have h1 := encEnc_length hl hc hk
+  have h2 := hn.hL
+  have hA : minIvtSize ≤ ((encEnc co c cfg).take hmacOffset).length := by
+    simp only [hmacOffset, minIvtSize, List.length_take] at *; omega
+  unfold encIvtOf
+  rw [updateIvt_eq _ _ _ _ _ hA]
+  apply encrypted_drop_of_split _ _ _ _ rfl
+  simp only [List.length_append, le32_length, List.length_take, slice_length]
+  simp only [hmacOffset, encIvtCopySize] at *
+  omega
+
+theorem encrypted_postEncryptRevert (hl : CryptoLaws co) (hc : EncCls c) (hk : EncCfg c cfg) (hn : EncLens co c cfg signer)
+    (p : Parsed) (ci : CertInfo) (hp : p.cert = some ci) (hv : ci.v1 = true) (hs : ci.size = cfg.cert.length) :
+    postEncryptRevert c p (encPe co c cfg) = .ok (encEnc co c cfg) := by
+  have hL := hn.hL
+  have hoff : rd32 (encPe co c cfg) ivtCrcCertificateOffset = appLen c cfg := (encIvtOf_words hl hc hk _).2.2.1
+  have hsplit : encPe co c cfg = encIvtOf co c cfg ++ slice (encEnc co c cfg) hmacOffset (appLen c cfg)
+      ++ certInImage c cfg ++ (encEnc co c cfg).take encIvtCopySize ++ cfg.ctrIv ++ (encEnc co c cfg).drop (appLen c cfg) := by
+    unfold encPe encBody; simp only [List.append_assoc]
+  have s1 : slice (encPe co c cfg) (appLen c cfg + cfg.cert.length) (appLen c cfg + cfg.cert.length + encIvtCopySize)
+      = (encEnc co c cfg).take encIvtCopySize := by
+    apply encrypted_slice_of_split _ (encIvtOf co c cfg ++ slice (encEnc co c cfg) hmacOffset (appLen c cfg)
+      ++ certInImage c cfg) _ (cfg.ctrIv ++ (encEnc co c cfg).drop (appLen c cfg))
+    · rw [hsplit]; simp only [List.append_assoc]
+    · simp only [List.length_append, hn.hivt, hn.hmid, hn.hcert]; omega
+    · rw [hn.hcopy]
+  have s2 : slice (encPe co c cfg) encIvtCopySize (appLen c cfg)
+      = slice (encEnc co c cfg) encIvtCopySize hmacOffset ++ slice (encEnc co c cfg) hmacOffset (appLen c cfg) := by
+    unfold slice
+    rw [encrypted_take_of_split _ (encIvtOf co c cfg ++ slice (encEnc co c cfg) hmacOffset (appLen c cfg))
+      (certInImage c cfg ++ (encEnc co c cfg).take encIvtCopySize ++ cfg.ctrIv ++ (encEnc co c cfg).drop (appLen c cfg))
+      (appLen c cfg) (by rw [hsplit]; simp only [List.append_assoc])
+      (by simp only [List.length_append, hn.hivt, hn.hmid]; omega)]
+    rw [List.drop_append_of_le_length (by rw [hn.hivt]; decide), encIvtOf_drop hn hl hc hk]
+    rfl
+  have s3 : (encPe co c cfg).drop (appLen c cfg + cfg.cert.length + encIvtCopySize + encIvSize)
+      = (encEnc co c cfg).drop (appLen c cfg) := by
+    apply encrypted_drop_of_split _ (encIvtOf co c cfg ++ slice (encEnc co c cfg) hmacOffset (appLen c cfg)
+      ++ certInImage c cfg ++ (encEnc co c cfg).take encIvtCopySize ++ cfg.ctrIv)
+    · rw [hsplit]
+    · simp only [List.length_append, hn.hivt, hn.hmid, hn.hcert, hn.hcopy, hn.hiv]; omega
+  unfold postEncryptRevert
+  rw [hc.hpenc]
+  simp only [hp, hv, hs, hoff, s1, s2, s3, not_true_eq_false, if_false]
+  rw [← List.append_assoc ((encEnc co c cfg).take encIvtCopySize),
+    encrypted_take_append_slice _ _ _ (by decide), encrypted_take_append_slice _ _ _ hL, List.take_append_drop]
+
+theorem encrypted_encryptRevert (hl : CryptoLaws co) (hc : EncCls c) (hk : EncCfg c cfg)
+    (p : Parsed) (h1 : p.hmacKey = cfg.hmacKey) (h2 : p.ctrIv = cfg.ctrIv) (h3 : p.keyStore.isSome = cfg.keyStore.isSome) :
+    encryptRevert co c p (encEnc co c cfg) = .ok (encRaw c cfg) := by
+  obtain ⟨k, hk1, _⟩ := hk.hhmac
+  have hkey : encKey co k cfg.keyStore.isSome = encKeyOf co cfg := by simp [encKeyOf, hk1]
+  unfold encryptRevert
+  rw [hc.henc]
+  simp only [h1, h2, h3, hk1, encrypted_iv_ne hk, Bool.false_eq_true, if_false, hkey]
+  unfold encEnc
+  rw [ctr_invol hl]
+
+/-! ### one `mix_parse` call on the final image, by provider -/
+
+theorem encrypted_cert_facts (C w rest : Bytes) (hC : 32 ≤ C.length) (hw : w.length = 4) :
+    (setAt C 20 w ++ rest).take 4 = C.take 4 ∧ rd32 (setAt C 20 w ++ rest) 8 = rd32 C 8
+      ∧ rd32 (setAt C 20 w ++ rest) 28 = rd32 C 28 := by
+  have e : setAt C 20 w = C.take 20 ++ w ++ C.drop 24 := by unfold setAt; rw [hw]
+  have l20 : (C.take 20).length = 20 := by rw [List.length_take]; omega
+  have l24 : (C.take 20 ++ w).length = 24 := by rw [List.length_append, l20, hw]
+  have l24' : (C.take 24).length = 24 := by rw [List.length_take]; omega
+  have r8 : rd32 (C.take 20 ++ C.drop 20) 8 = rd32 (C.take 20) 8 := rd32_append_left _ _ _ (by omega)
+  rw [List.take_append_drop] at r8
+  have r28 : rd32 (C.take 24 ++ C.drop 24) ((C.take 24).length + 4) = rd32 (C.drop 24) 4 := rd32_append_right _ _ _
+  rw [List.take_append_drop, l24'] at r28
+  have q28 : rd32 ((C.take 20 ++ w) ++ (C.drop 24 ++ rest)) ((C.take 20 ++ w).length + 4) = rd32 (C.drop 24 ++ rest) 4 :=
+    rd32_append_right _ _ _
+  rw [l24] at q28
+  rw [e]
+  refine ⟨?_, ?_, ?_⟩
+  · rw [List.append_assoc, List.append_assoc, List.take_append_of_le_length (by omega), List.take_take]
+    simp
+  · rw [List.append_assoc, List.append_assoc, rd32_append_left _ _ _ (by omega), r8]
+  · rw [List.append_assoc (C.take 20 ++ w), q28, rd32_append_left _ _ _ (by rw [List.length_drop]; omega), r28]
+
+theorem encrypted_certInImage_eq_setAt (hc : EncCls c) :
+    ∃ v, certInImage c cfg = setAt cfg.cert 20 (le32 v) := by
+  unfold certInImage
+  rw [hc.hpenc]
+  exact ⟨_, rfl⟩
+
+/-- the state field the certificate mixin writes -/
+def encCertInfo (c : Cls) (cfg : Cfg) : CertInfo := ⟨certInImage c cfg, cfg.cert.length, cfg.sigLen, true⟩
+
+theorem encrypted_canon_cert (hc : EncCls c) (dek : Option Bytes) : (canon c cfg dek).cert = some (encCertInfo c cfg) := by
+  simp only [canon, hc.hV1, if_true, encCertInfo]
+
+section step
+variable (hl : CryptoLaws co) (hc : EncCls c) (hk : EncCfg c cfg) (hn : EncLens co c cfg signer)
+  (hs : ∀ m, (signer m).length = cfg.sigLen) (dek : Option Bytes)
+include hl hc hk hn hs
+
+theorem encrypted_parse_cert (p : Parsed) (m : MixinName)
+    (hp : provider m .mix_parse = some .Mbi_MixinCertBlockV1) (henv : EnvOK env c cfg) :
+    mixParse env c dek (encImg co c cfg signer) p m = .ok { p with cert := some (encCertInfo c cfg) } := by
+  obtain ⟨v, hv⟩ := encrypted_certInImage_eq_setAt (cfg := cfg) hc
+  obtain ⟨f1, f2, f3⟩ := encrypted_cert_facts cfg.cert (le32 v) ((encEnc co c cfg).take encIvtCopySize ++ cfg.ctrIv
+          ++ (encEnc co c cfg).drop (appLen c cfg) ++ signer (encPe co c cfg)) hk.hcertLen (le32_length v)
+  rw [← hv] at f1 f2 f3
+  obtain ⟨e1, e2⟩ := henv.1 hc.hV1 ((encEnc co c cfg).take encIvtCopySize ++ cfg.ctrIv
+          ++ (encEnc co c cfg).drop (appLen c cfg) ++ signer (encPe co c cfg))
+  have hsz := hk.hcertSize
+  have hsz' : certV1Size (certInImage c cfg ++ ((encEnc co c cfg).take encIvtCopySize ++ cfg.ctrIv
+          ++ (encEnc co c cfg).drop (appLen c cfg) ++ signer (encPe co c cfg))) = cfg.cert.length := by
+    unfold certV1Size at hsz ⊢
+    simp only [certTableLengthOffset] at hsz ⊢
+    rw [f3, hsz]
+  have hge := (alignNat_spec (certHeaderSize + rd32 cfg.cert certTableLengthOffset + rkhtEntries * rkhSize) 4 (by decide)).2.1
+  unfold certV1Size at hsz
+  rw [hsz] at hge
+  have hlen := hn.hcert
+  have hcl := hk.hcertLen
+  unfold mixParse
+  simp only [hp, encrypted_certOffset hl hc hk signer hs, encrypted_hmacShift hl hc hk, encImg_drop_cert hn, bind, Except.bind]
+  have c4 : ¬ ((certInImage c cfg ++ ((encEnc co c cfg).take encIvtCopySize ++ cfg.ctrIv
+          ++ (encEnc co c cfg).drop (appLen c cfg) ++ signer (encPe co c cfg))).length
+        < rd32 (certInImage c cfg ++ ((encEnc co c cfg).take encIvtCopySize ++ cfg.ctrIv
+          ++ (encEnc co c cfg).drop (appLen c cfg) ++ signer (encPe co c cfg))) certTableLengthOffset
+          + rkhtEntries * rkhSize) := by
+    simp only [certTableLengthOffset] at hge ⊢
+    rw [f3, List.length_append, hlen]; omega
+  have c1 : ¬ ((certInImage c cfg ++ ((encEnc co c cfg).take encIvtCopySize ++ cfg.ctrIv
+          ++ (encEnc co c cfg).drop (appLen c cfg) ++ signer (encPe co c cfg))).length < certHeaderSize) := by
+    rw [List.length_append, hlen]; omega
+  have c5 : (certInImage c cfg ++ ((encEnc co c cfg).take encIvtCopySize ++ cfg.ctrIv
+          ++ (encEnc co c cfg).drop (appLen c cfg) ++ signer (encPe co c cfg))).take cfg.cert.length
+      = certInImage c cfg := by rw [← hlen, List.take_left]
+  generalize certInImage c cfg ++ ((encEnc co c cfg).take encIvtCopySize ++ cfg.ctrIv
+          ++ (encEnc co c cfg).drop (appLen c cfg) ++ signer (encPe co c cfg)) = d at *
+  rw [hk.hcertSig] at f1
+  rw [hk.hcertHdr] at f2
+  simp only [c1, c4, f1, f2, e1, e2, hsz', c5, if_false, ne_eq, not_true_eq_false, pure, Except.pure, encCertInfo]
+
+theorem encrypted_parse_simple (p : Parsed) (m : MixinName) :
+    (provider m .mix_parse = some .Mbi_MixinLoadAddress →
+      mixParse env c dek (encImg co c cfg signer) p m = .ok { p with loadAddress := (canon c cfg dek).loadAddress })
+    ∧ (provider m .mix_parse = some .Mbi_MixinImageVersion →
+      mixParse env c dek (encImg co c cfg signer) p m = .ok { p with imageVersion := (canon c cfg dek).imageVersion })
+    ∧ (provider m .mix_parse = some .Mbi_MixinImageSubType →
+      mixParse env c dek (encImg co c cfg signer) p m = .ok { p with subType := (canon c cfg dek).subType })
+    ∧ (provider m .mix_parse = some .Mbi_MixinHwKey →
+      mixParse env c dek (encImg co c cfg signer) p m = .ok { p with hwKey := (canon c cfg dek).hwKey }) := by
+  obtain ⟨g1, g2, g3, g4, g5, g6⟩ := encrypted_flag_fields hc hk
+  obtain ⟨w1, w2, w3, w4⟩ := encImg_words hl hc hk signer
+  have hfl := encImg_flagsIn hl hc hk signer
+  refine ⟨?_, ?_, ?_, ?_⟩ <;> intro hp <;> unfold mixParse <;> simp only [hp, hfl, w4, g6, g2, g3, canon]
+
+/-- the TrustZone setting `mix_parse` reads from the final image: custom data are still encrypted there -/
+def encTzParsed (co : CryptoOps) (c : Cls) (cfg : Cfg) (signer : Signer) : TzCfg :=
+  match cfg.tz with
+  | .custom _ =>
+    .custom ((slice (encImg co c cfg signer) (appLen c cfg + cfg.cert.length + (hmacSize + encKsLen cfg))
+      (appLen c cfg + cfg.cert.length + (hmacSize + encKsLen cfg) + c.tzSize)).take c.tzSize)
+  | t => t
+
+omit hl hc hk hn hs in
+theorem encTzParsed_like (co : CryptoOps) (c : Cls) (cfg : Cfg) (signer : Signer) :
+    encTzLike (encTzParsed co c cfg signer) cfg.tz := by
+  unfold encTzLike encTzParsed
+  cases cfg.tz with
+  | custom d => exact ⟨_, rfl⟩
+  | enabled => rfl
+  | disabled => rfl
+
+theorem encrypted_parse_tz (p : Parsed) (m : MixinName) (hp : provider m .mix_parse = some .Mbi_MixinTrustZone)
+    (ci : CertInfo) (hci : p.cert = some ci) (hsz : ci.size = cfg.cert.length) :
+    mixParse env c dek (encImg co c cfg signer) p m = .ok { p with tz := encTzParsed co c cfg signer } := by
+  have hfl := encImg_flagsIn hl hc hk signer
+  have g1 := (encrypted_flag_fields hc hk).1
+  unfold mixParse
+  simp only [hp, hfl, g1]
+  unfold encTzParsed
+  cases hz : cfg.tz with
+  | enabled => simp [TzCfg.tag, tzEnabled, tzCustom, tzDisabled]
+  | disabled => simp [TzCfg.tag, tzEnabled, tzCustom, tzDisabled]
+  | custom d =>
+    obtain ⟨hd, _⟩ := hk.htz d hz
+    have hlen := encImg_len hn
+    rw [hz] at hlen
+    simp only [TzCfg.bytes] at hlen
+    have hsl : (slice (encImg co c cfg signer) (appLen c cfg + cfg.cert.length + (hmacSize + encKsLen cfg))
+        (appLen c cfg + cfg.cert.length + (hmacSize + encKsLen cfg) + c.tzSize)).length = c.tzSize := by
+      rw [slice_length, hlen, hd]
+      simp only [encIvtCopySize, encIvSize]
+      omega
+    simp only [TzCfg.tag, tzEnabled, tzCustom, tzDisabled, hc.hcert, hci, hsz, encrypted_certOffset hl hc hk signer hs,
+      encrypted_hmacShift hl hc hk, bind, Except.bind, tzFromBinary, hsl]
+    simp [pure, Except.pure]
+
+theorem encrypted_parse_ks (p : Parsed) (m : MixinName) (hp : provider m .mix_parse = some .Mbi_MixinKeyStore) :
+    mixParse env c dek (encImg co c cfg signer) p m = .ok { p with keyStore := (canon c cfg dek).keyStore } := by
+  have hfl := encImg_flagsIn hl hc hk signer
+  have g4 := (encrypted_flag_fields hc hk).2.2.2.1
+  unfold mixParse
+  simp only [hp, hfl, g4, canon, hc.hKs, if_true]
+  cases hks : cfg.keyStore with
+  | none => simp
+  | some k =>
+    have hkl := hk.hks k hks
+    have hsl := encImg_slice_ks hn
+    have hkk : encKsLen cfg = keyStoreSize := by unfold encKsLen; rw [hks]; exact hkl
+    rw [hkk, hks] at hsl
+    simp only [Option.getD_some] at hsl
+    have hne : k.isEmpty = false := by
+      cases k with
+      | nil => simp [keyStoreSize] at hkl
+      | cons a l => rfl
+    simp only [Option.isSome_some, if_true, hsl, hne, hkl, Bool.false_eq_true, if_false, ne_eq, not_true_eq_false]
+    cases k with
+    | nil => simp at hne
+    | cons a l => rfl
+
+theorem encrypted_parse_hmac (p : Parsed) (m : MixinName) (hp : provider m .mix_parse = some .Mbi_MixinHmac)
+    (hdek : dek = cfg.hmacKey) :
+    mixParse env c dek (encImg co c cfg signer) p m = .ok { p with hmacKey := (canon c cfg dek).hmacKey } := by
+  obtain ⟨k, hk1, _⟩ := hk.hhmac
+  unfold mixParse
+  simp only [hp, canon, hc.hHmac, if_true, hdek, hk1]
+
+theorem encrypted_parse_ctr (p : Parsed) (m : MixinName) (hp : provider m .mix_parse = some .Mbi_MixinCtrInitVector)
+    (ci : CertInfo) (hci : p.cert = some ci) (hsz : ci.size = cfg.cert.length) (hv : ci.v1 = true) :
+    mixParse env c dek (encImg co c cfg signer) p m = .ok { p with ctrIv := (canon c cfg dek).ctrIv } := by
+  unfold mixParse
+  simp only [hp, hci, hv, hsz, encrypted_certOffset hl hc hk signer hs, encrypted_hmacShift hl hc hk, bind, Except.bind,
+    encImg_slice_iv hn, canon, hc.hCtr, if_true, not_true_eq_false, if_false, pure, Except.pure]
+
+/-! ### the fold of `mix_parse` over the parse order -/
+
+omit hl hk hn hs in
+/-- the `mix_parse` providers the family cannot contain (their `mix_len` is not among the class's length terms) -/
+theorem encrypted_parse_excl (m : MixinName) (hm : m ∈ c.dataMixins) :
+    provider m .mix_parse ≠ some .Mbi_MixinCertBlockV21 ∧ provider m .mix_parse ≠ some .Mbi_MixinManifest
+      ∧ provider m .mix_parse ≠ some .Mbi_MixinBca ∧ provider m .mix_parse ≠ some .Mbi_MixinFcf := by
+  have key : ∀ Y, provider m .mix_len = some Y → Y ∈ [MixinName.Mbi_MixinApp, .Mbi_MixinTrustZone, .Mbi_MixinCertBlockV1,
+      .Mbi_MixinHmac, .Mbi_MixinKeyStore, .Mbi_MixinRelocTable] := by
+    intro Y hY
+    have h1 : Y ∈ c.lenProviders.filterMap id := by
+      simp only [Cls.lenProviders, List.mem_filterMap, List.mem_map, id]
+      exact ⟨some Y, ⟨m, hm, hY⟩, rfl⟩
+    have h2 := (perm_of_lenProvidersAre _ _ hc.hlen).mem_iff.mp h1
+    cases hr : c.has .Mbi_MixinRelocTable <;> simp [optList, hr] at h2 ⊢ <;> grind
+  clear hm
+  cases m <;> first
+    | exact ⟨by decide, by decide, by decide, by decide⟩
+    | (exfalso; have := key _ rfl; simp at this)
+
+def encSeen (done : List MixinName) (X : MixinName) : Bool :=
+  done.any (fun m => decide (provider m .mix_parse = some X))
+
+/-- the parser state: every field is still the default or already the final value -/
+def encP (q : Parsed) (tzv : TzCfg) (f : MixinName → Bool) : Parsed :=
+  { loadAddress := if f .Mbi_MixinLoadAddress then q.loadAddress else 0
+    imageVersion := if f .Mbi_MixinImageVersion then q.imageVersion else 0
+    subType := if f .Mbi_MixinImageSubType then q.subType else 0
+    tz := if f .Mbi_MixinTrustZone then tzv else .enabled
+    hwKey := if f .Mbi_MixinHwKey then q.hwKey else false
+    keyStore := if f .Mbi_MixinKeyStore then q.keyStore else none
+    hmacKey := if f .Mbi_MixinHmac then q.hmacKey else none
+    ctrIv := if f .Mbi_MixinCtrInitVector then q.ctrIv else []
+    cert := if f .Mbi_MixinCertBlockV1 then q.cert else none }
+
+omit hl hc hk hn hs in
+theorem encrypted_mixParse_other (data : Bytes) (p : Parsed) (m : MixinName)
+    (h : match provider m .mix_parse with
+      | some .Mbi_MixinTrustZone | some .Mbi_MixinLoadAddress | some .Mbi_MixinImageVersion | some .Mbi_MixinImageSubType
+      | some .Mbi_MixinHwKey | some .Mbi_MixinKeyStore | some .Mbi_MixinHmac | some .Mbi_MixinCtrInitVector
+      | some .Mbi_MixinCertBlockV1 | some .Mbi_MixinCertBlockV21 | some .Mbi_MixinManifest | some .Mbi_MixinBca
+      | some .Mbi_MixinFcf => False
+      | _ => True) :
+    mixParse env c dek data p m = .ok p := by
+  unfold mixParse
+  split <;> simp_all
+
+theorem encrypted_step (f : MixinName → Bool) (m : MixinName) (hm : m ∈ c.dataMixins)
+    (hrc : encReadsCert m = true → f .Mbi_MixinCertBlockV1 = true) (hdek : dek = cfg.hmacKey) (henv : EnvOK env c cfg) :
+    mixParse env c dek (encImg co c cfg signer) (encP (canon c cfg dek) (encTzParsed co c cfg signer) f) m
+      = .ok (encP (canon c cfg dek) (encTzParsed co c cfg signer)
+          (fun X => f X || decide (provider m .mix_parse = some X))) := by
+  obtain ⟨x1, x2, x3, x4⟩ := encrypted_parse_excl hc m hm
+  obtain ⟨s1, s2, s3, s4⟩ := encrypted_parse_simple hl hc hk hn hs dek (env := env)
+    (encP (canon c cfg dek) (encTzParsed co c cfg signer) f) m
+  have hcc := encrypted_canon_cert (cfg := cfg) hc dek
+  rcases hpm : provider m .mix_parse with _ | X
+  · rw [encrypted_mixParse_other dek _ _ _ (by rw [hpm]; trivial)]
+    simp [encP]
+  · cases X
+    case Mbi_MixinCertBlockV21 => exact absurd hpm x1
+    case Mbi_MixinManifest => exact absurd hpm x2
+    case Mbi_MixinBca => exact absurd hpm x3
+    case Mbi_MixinFcf => exact absurd hpm x4
+    case Mbi_MixinLoadAddress => rw [s1 hpm]; simp [encP]
+    case Mbi_MixinImageVersion => rw [s2 hpm]; simp [encP]
+    case Mbi_MixinImageSubType => rw [s3 hpm]; simp [encP]
+    case Mbi_MixinHwKey => rw [s4 hpm]; simp [encP]
+    case Mbi_MixinKeyStore => rw [encrypted_parse_ks hl hc hk hn hs dek _ m hpm]; simp [encP]
+    case Mbi_MixinHmac => rw [encrypted_parse_hmac hl hc hk hn hs dek _ m hpm hdek]; simp [encP]
+    case Mbi_MixinCertBlockV1 => rw [encrypted_parse_cert hl hc hk hn hs dek _ m hpm henv]; simp [encP, hcc]
+    case Mbi_MixinTrustZone =>
+      have hr : encReadsCert m = true := by
+        revert hpm; cases m <;> simp [provider, encReadsCert, preParsed]
+      have hf := hrc hr
+      rw [encrypted_parse_tz hl hc hk hn hs dek _ m hpm (encCertInfo c cfg) (by simp [encP, hf, hcc]) rfl]
+      simp [encP]
+    case Mbi_MixinCtrInitVector =>
+      have hr : encReadsCert m = true := by
+        revert hpm; cases m <;> simp [provider, encReadsCert, preParsed]
+      have hf := hrc hr
+      rw [encrypted_parse_ctr hl hc hk hn hs dek _ m hpm (encCertInfo c cfg) (by simp [encP, hf, hcc]) rfl rfl]
+      simp [encP]
+    all_goals
+      rw [encrypted_mixParse_other dek _ _ _ (by rw [hpm]; trivial)]
+      simp [encP]
+
+omit hl hc hk hn hs in
+theorem encSeen_snoc (done : List MixinName) (m : MixinName) :
+    (fun X => encSeen done X || decide (provider m .mix_parse = some X)) = encSeen (done ++ [m]) := by
+  funext X
+  simp [encSeen, List.any_append]
+
+theorem encrypted_fold (hdek : dek = cfg.hmacKey) (henv : EnvOK env c cfg) :
+    ∀ (rest done : List MixinName), (∀ x ∈ rest, x ∈ c.dataMixins) →
+      encOrdered (encSeen done .Mbi_MixinCertBlockV1) rest = true →
+      rest.foldlM (mixParse env c dek (encImg co c cfg signer))
+          (encP (canon c cfg dek) (encTzParsed co c cfg signer) (encSeen done))
+        = .ok (encP (canon c cfg dek) (encTzParsed co c cfg signer) (encSeen (done ++ rest))) := by
+  intro rest
+  induction rest with
+  | nil => intro done _ _; simp [List.foldlM, pure, Except.pure]
+  | cons m ms ih =>
+    intro done hmem hord
+    have hm := hmem m (by simp)
+    unfold encOrdered at hord
+    rw [Bool.and_eq_true] at hord
+    obtain ⟨ho1, ho2⟩ := hord
+    have hrc : encReadsCert m = true → encSeen done .Mbi_MixinCertBlockV1 = true := by
+      intro hr; rw [hr] at ho1; simpa using ho1
+    have hx := (encrypted_parse_excl hc m hm).1
+    have hsets : setsCert m = decide (provider m .mix_parse = some .Mbi_MixinCertBlockV1) := by
+      unfold setsCert
+      have : (provider m .mix_parse == some MixinName.Mbi_MixinCertBlockV21) = false := by simpa using hx
+      rw [this, Bool.or_false]
+      cases h : decide (provider m .mix_parse = some .Mbi_MixinCertBlockV1) <;> simp_all
+    rw [List.foldlM_cons, encrypted_step hl hc hk hn hs dek _ m hm hrc hdek henv, encSeen_snoc]
+    simp only [bind, Except.bind]
+    have := ih (done ++ [m]) (fun x hx => hmem x (by simp [hx])) (by
+      rw [← encSeen_snoc]
+      show encOrdered (encSeen done .Mbi_MixinCertBlockV1
+        || decide (provider m .mix_parse = some .Mbi_MixinCertBlockV1)) ms = true
+      rw [← hsets]; exact ho2)
+    rw [this, List.append_assoc]
+    rfl
+
+/-- the state after all `mix_parse` calls -/
+def encQ (co : CryptoOps) (c : Cls) (cfg : Cfg) (signer : Signer) (dek : Option Bytes) : Parsed :=
+  { canon c cfg dek with app := none, reloc := none, tz := encTzParsed co c cfg signer }
+
+omit hl hc hk hn hs in
+theorem encProv_of_derives (m : MixinName) :
+    (derivesFrom m .Mbi_MixinLoadAddress = true → isData m = true ∧ provider m .mix_parse = some .Mbi_MixinLoadAddress)
+    ∧ (derivesFrom m .Mbi_MixinImageVersion = true → isData m = true ∧ provider m .mix_parse = some .Mbi_MixinImageVersion)
+    ∧ (derivesFrom m .Mbi_MixinImageSubType = true → isData m = true ∧ provider m .mix_parse = some .Mbi_MixinImageSubType)
+    ∧ (derivesFrom m .Mbi_MixinHwKey = true → isData m = true ∧ provider m .mix_parse = some .Mbi_MixinHwKey)
+    ∧ (derivesFrom m .Mbi_MixinKeyStore = true → isData m = true ∧ provider m .mix_parse = some .Mbi_MixinKeyStore)
+    ∧ (derivesFrom m .Mbi_MixinHmac = true → isData m = true ∧ provider m .mix_parse = some .Mbi_MixinHmac)
+    ∧ (derivesFrom m .Mbi_MixinCtrInitVector = true → isData m = true ∧ provider m .mix_parse = some .Mbi_MixinCtrInitVector)
+    ∧ (derivesFrom m .Mbi_MixinCertBlockV1 = true → isData m = true ∧ provider m .mix_parse = some .Mbi_MixinCertBlockV1)
+    ∧ (derivesFrom m .Mbi_MixinTrustZone = true → isData m = true
+        ∧ (provider m .mix_parse = some .Mbi_MixinTrustZone ∨ provider m .mix_parse = some .Mbi_MixinManifest)) := by
+  cases m <;> decide
+
+omit hl hk hn hs in
+theorem encrypted_seen_of_has (order : List MixinName) (hmem : ∀ x, x ∈ c.dataMixins ↔ x ∈ order) (X : MixinName)
+    (hX : ∀ m, derivesFrom m X = true → isData m = true
+      ∧ (provider m .mix_parse = some X ∨ provider m .mix_parse = some .Mbi_MixinManifest))
+    (h : c.has X = true) : encSeen order X = true := by
+  obtain ⟨m, hm, hd⟩ := encrypted_has_mem X h
+  obtain ⟨h1, h2⟩ := hX m hd
+  have hdm : m ∈ c.dataMixins := List.mem_filter.mpr ⟨hm, h1⟩
+  have hx := (encrypted_parse_excl hc m hdm).2.1
+  have h3 : provider m .mix_parse = some X := by
+    rcases h2 with h2 | h2
+    · exact h2
+    · exact absurd h2 hx
+  unfold encSeen
+  rw [List.any_eq_true]
+  exact ⟨m, (hmem m).mp hdm, by simpa using h3⟩
+
+theorem encrypted_mixParseAll (hdek : dek = cfg.hmacKey) (henv : EnvOK env c cfg) :
+    mixParseAll env c dek (encImg co c cfg signer) = .ok (encQ co c cfg signer dek) := by
+  obtain ⟨order, ho⟩ := Option.isSome_iff_exists.mp hc.horder
+  obtain ⟨hord, hmem⟩ := encrypted_parseOrder hc.hcert order ho
+  have h0 : encP (canon c cfg dek) (encTzParsed co c cfg signer) (encSeen []) = {} := by simp [encP, encSeen]
+  have hfold := encrypted_fold hl hc hk hn hs dek hdek henv order [] (fun x hx => (hmem x).mpr hx)
+    (by simpa [encSeen] using hord)
+  rw [h0, List.nil_append] at hfold
+  unfold mixParseAll
+  rw [ho]
+  simp only [hfold]
+  have sLA := fun h => encrypted_seen_of_has hc order hmem .Mbi_MixinLoadAddress
+    (fun m hd => ⟨((encProv_of_derives m).1 hd).1, Or.inl ((encProv_of_derives m).1 hd).2⟩) h
+  have sIV := fun h => encrypted_seen_of_has hc order hmem .Mbi_MixinImageVersion
+    (fun m hd => ⟨((encProv_of_derives m).2.1 hd).1, Or.inl ((encProv_of_derives m).2.1 hd).2⟩) h
+  have sST := fun h => encrypted_seen_of_has hc order hmem .Mbi_MixinImageSubType
+    (fun m hd => ⟨((encProv_of_derives m).2.2.1 hd).1, Or.inl ((encProv_of_derives m).2.2.1 hd).2⟩) h
+  have sHW := fun h => encrypted_seen_of_has hc order hmem .Mbi_MixinHwKey
+    (fun m hd => ⟨((encProv_of_derives m).2.2.2.1 hd).1, Or.inl ((encProv_of_derives m).2.2.2.1 hd).2⟩) h
+  have sKS := encrypted_seen_of_has hc order hmem .Mbi_MixinKeyStore
+    (fun m hd => ⟨((encProv_of_derives m).2.2.2.2.1 hd).1, Or.inl ((encProv_of_derives m).2.2.2.2.1 hd).2⟩) hc.hKs
+  have sHM := encrypted_seen_of_has hc order hmem .Mbi_MixinHmac
+    (fun m hd => ⟨((encProv_of_derives m).2.2.2.2.2.1 hd).1, Or.inl ((encProv_of_derives m).2.2.2.2.2.1 hd).2⟩) hc.hHmac
+  have sCT := encrypted_seen_of_has hc order hmem .Mbi_MixinCtrInitVector
+    (fun m hd => ⟨((encProv_of_derives m).2.2.2.2.2.2.1 hd).1, Or.inl ((encProv_of_derives m).2.2.2.2.2.2.1 hd).2⟩) hc.hCtr
+  have sV1 := encrypted_seen_of_has hc order hmem .Mbi_MixinCertBlockV1
+    (fun m hd => ⟨((encProv_of_derives m).2.2.2.2.2.2.2.1 hd).1, Or.inl ((encProv_of_derives m).2.2.2.2.2.2.2.1 hd).2⟩) hc.hV1
+  have sTZ := encrypted_seen_of_has hc order hmem .Mbi_MixinTrustZone
+    (fun m hd => (encProv_of_derives m).2.2.2.2.2.2.2.2 hd) hc.hTz
+  congr 1
+  unfold encP encQ
+  simp only [sKS, sHM, sCT, sV1, sTZ, if_true]
+  have e1 : (if encSeen order .Mbi_MixinLoadAddress = true then (canon c cfg dek).loadAddress else 0)
+      = (canon c cfg dek).loadAddress := by
+    cases hh : c.has .Mbi_MixinLoadAddress
+    · simp [canon, hh]
+    · rw [sLA hh, if_pos rfl]
+  have e2 : (if encSeen order .Mbi_MixinImageVersion = true then (canon c cfg dek).imageVersion else 0)
+      = (canon c cfg dek).imageVersion := by
+    cases hh : c.has .Mbi_MixinImageVersion
+    · simp [canon, hh]
+    · rw [sIV hh, if_pos rfl]
+  have e3 : (if encSeen order .Mbi_MixinImageSubType = true then (canon c cfg dek).subType else 0)
+      = (canon c cfg dek).subType := by
+    cases hh : c.has .Mbi_MixinImageSubType
+    · simp [canon, hh]
+    · rw [sST hh, if_pos rfl]
+  have e4 : (if encSeen order .Mbi_MixinHwKey = true then (canon c cfg dek).hwKey else false)
+      = (canon c cfg dek).hwKey := by
+    cases hh : c.has .Mbi_MixinHwKey
+    · simp [canon, hh]
+    · rw [sHW hh, if_pos rfl]
+  rw [e1, e2, e3, e4]
+  simp [canon, hc.hmk, hc.hV1, hk.hbca, hk.hfcf]
+
+end step
+
+theorem encrypted_canon_keyStore (hc : EncCls c) (hk : EncCfg c cfg) (dek : Option Bytes) :
+    (canon c cfg dek).keyStore = cfg.keyStore := by
+  simp only [canon, hc.hKs, if_true]
+  cases hs : cfg.keyStore with
+  | none => rfl
+  | some k =>
+    have := hk.hks k hs
+    cases k with
+    | nil => simp [keyStoreSize] at this
+    | cons a l => rfl
+
+/-! ### re-export of the parsed image -/
+
+/-- the parsed image as a builder configuration: cleaned application, the certificate block as emitted -/
+def encCfgR (c : Cls) (cfg : Cfg) : Cfg := { cfg with app := cleanIvt (appData cfg), cert := certInImage c cfg }
+
+theorem encrypted_toCfg (hc : EncCls c) (hk : EncCfg c cfg) (dek : Option Bytes) (hdek : dek = cfg.hmacKey) :
+    (canon c cfg dek).toCfg = encCfgR c cfg := by
+  have e1 : (if c.has .Mbi_MixinLoadAddress = true then cfg.loadAddress else 0) = cfg.loadAddress := by
+    cases hh : c.has .Mbi_MixinLoadAddress
+    · simp [hk.hnoLa hh]
+    · simp
+  have e2 : (if c.has .Mbi_MixinImageVersion = true then cfg.imageVersion else 0) = cfg.imageVersion := by
+    cases hh : c.has .Mbi_MixinImageVersion
+    · simp [hk.hnoIv hh]
+    · simp
+  have e3 : (if c.has .Mbi_MixinImageSubType = true then cfg.subType else 0) = cfg.subType := by
+    cases hh : c.has .Mbi_MixinImageSubType
+    · simp [hk.hnoSub hh]
+    · simp
+  have e4 : (c.has .Mbi_MixinHwKey && cfg.hwKey) = cfg.hwKey := by
+    cases hh : c.has .Mbi_MixinHwKey
+    · simp [hk.hnoHw hh]
+    · simp
+  have e5 : (if c.has .Mbi_MixinRelocTable = true then cfg.reloc else none) = cfg.reloc := by
+    cases hh : c.has .Mbi_MixinRelocTable
+    · simp [encrypted_reloc_none hk hh]
+    · simp
+  have e6 := encrypted_canon_keyStore hc hk dek
+  simp only [canon, hc.hKs, if_true] at e6
+  unfold Parsed.toCfg encCfgR
+  simp only [canon, hc.hclean, hc.hKs, hc.hHmac, hc.hCtr, hc.hV1, hc.hmk, encrypted_hasTrustZone hc, e1, e2, e3, e4, e5, e6,
+    if_true, Option.getD_some, hdek, hk.hbca, hk.hfcf, hk.hfw, hk.hdigest, Option.isSome_none, Bool.false_eq_true, ite_self]
+
+
+theorem encrypted_appData_R (hk : EncCfg c cfg) : appData (encCfgR c cfg) = cleanIvt (appData cfg) := by
+  have hA := encrypted_app_ivt hk
+  show align4 (cleanIvt (appData cfg)) = _
+  apply align4_of_aligned
+  rw [cleanIvt_length _ hA]
+  exact align4_length_mod cfg.app
+
+theorem encrypted_appData_R_length (hk : EncCfg c cfg) : (appData (encCfgR c cfg)).length = (appData cfg).length := by
+  rw [encrypted_appData_R hk, cleanIvt_length _ (encrypted_app_ivt hk)]
+
+theorem encrypted_rd32_cleanIvt (hk : EncCfg c cfg) (off : Nat) (ho : off + 4 ≤ 32) :
+    rd32 (appData (encCfgR c cfg)) off = rd32 (appData cfg) off := by
+  have hA := encrypted_app_ivt hk
+  have l32 : ((appData cfg).take 32).length = 32 := by
+    rw [List.length_take]; simp only [minIvtSize] at hA; omega
+  have r : rd32 ((appData cfg).take 32 ++ (appData cfg).drop 32) off = rd32 ((appData cfg).take 32) off :=
+    rd32_append_left _ _ _ (by omega)
+  rw [List.take_append_drop] at r
+  rw [encrypted_appData_R hk, cleanIvt_eq _ hA]
+  simp only [List.append_assoc]
+  rw [rd32_append_left _ _ _ (by omega), r]
+
+theorem encrypted_validate_R (hk : EncCfg c cfg) (m : MixinName) :
+    validateMixin c (encCfgR c cfg) m = validateMixin c cfg m := by
+  unfold validateMixin
+  simp only [encrypted_appData_R_length hk, encrypted_rd32_cleanIvt hk 0 (by decide), encrypted_rd32_cleanIvt hk 4 (by decide),
+    encrypted_rd32_cleanIvt hk 8 (by decide)]
+  rfl
+
+theorem encrypted_mixLenOf_R (hc : EncCls c) (hk : EncCfg c cfg) (d : MixinName) :
+    mixLenOf c (encCfgR c cfg) d = mixLenOf c cfg d := by
+  have h1 := encrypted_appData_R_length hk
+  have h2 : (encCfgR c cfg).cert.length = cfg.cert.length := encrypted_certInImage_length hc hk
+  cases d <;> simp only [mixLenOf, h1, h2] <;> rfl
+
+theorem encrypted_totalLen_R (hc : EncCls c) (hk : EncCfg c cfg) : totalLen c (encCfgR c cfg) = totalLen c cfg := by
+  unfold totalLen
+  congr 1
+  apply List.map_congr_left
+  intro m _
+  unfold mixLen
+  cases provider m .mix_len with
+  | none => rfl
+  | some d => exact encrypted_mixLenOf_R hc hk d
+
+theorem encrypted_forM_congr {α : Type} (f g : α → PyRes Unit) (l : List α) (h : ∀ a, f a = g a) : l.forM f = l.forM g := by
+  have : f = g := funext h
+  rw [this]
+
+theorem encCfg_R (hc : EncCls c) (hk : EncCfg c cfg) : EncCfg c (encCfgR c cfg) := by
+  obtain ⟨v, hv⟩ := encrypted_certInImage_eq_setAt (cfg := cfg) hc
+  obtain ⟨f1, f2, f3⟩ := encrypted_cert_facts cfg.cert (le32 v) [] hk.hcertLen (le32_length v)
+  rw [← hv, List.append_nil] at f1 f2 f3
+  have hcl : (certInImage c cfg).length = cfg.cert.length := encrypted_certInImage_length hc hk
+  have hflags : flagsOf c (encCfgR c cfg) = flagsOf c cfg := rfl
+  refine { hval := ?_, hpack := ?_, hla := hk.hla, hiv := hk.hiv, hst := hk.hst, hflags := hk.hflags, htz := hk.htz,
+           hreloc := hk.hreloc, hks := hk.hks, hhmac := hk.hhmac, hctr := hk.hctr, happ := ?_, hbca := hk.hbca,
+           hfcf := hk.hfcf, hcertLen := ?_, hcertSig := ?_, hcertHdr := ?_, hcertSize := ?_, hsigLen := hk.hsigLen,
+           hdigest := hk.hdigest, hfw := hk.hfw, hnoIv := hk.hnoIv, hnoSub := hk.hnoSub, hnoHw := hk.hnoHw,
+           hnoLa := hk.hnoLa }
+  · have := hk.hval
+    unfold validate at this ⊢
+    rw [encrypted_forM_congr _ _ _ (encrypted_validate_R hk)]
+    exact this
+  · have := hk.hpack
+    unfold packGuard at this ⊢
+    rw [encrypted_totalLen_R hc hk, hflags]
+    exact this
+  · rw [encrypted_appData_R_length hk]; exact hk.happ
+  · show certHeaderSize ≤ (certInImage c cfg).length
+    rw [hcl]; exact hk.hcertLen
+  · show (certInImage c cfg).take 4 = _
+    rw [f1]; exact hk.hcertSig
+  · show rd32 (certInImage c cfg) 8 = _
+    rw [f2]; exact hk.hcertHdr
+  · show certV1Size (certInImage c cfg) = (certInImage c cfg).length
+    have := hk.hcertSize
+    unfold certV1Size at this ⊢
+    simp only [certTableLengthOffset] at this ⊢
+    rw [f3, this, hcl]
+
+theorem encrypted_setAt_setAt (b w w' : Bytes) (off : Nat) (ho : off ≤ b.length) (hw : w.length = w'.length) :
+    setAt (setAt b off w) off w' = setAt b off w' := by
+  have : setAt b off w = b.take off ++ w ++ b.drop (off + w.length) := rfl
+  rw [this, setAt_mid _ _ _ _ off (by rw [List.length_take]; omega) hw]
+  unfold setAt
+  rw [hw]
+
+theorem encrypted_pieces_R (hl : CryptoLaws co) (hc : EncCls c) (hk : EncCfg c cfg) :
+    encIvtOf co c (encCfgR c cfg) = encIvtOf co c cfg ∧ encBody co c (encCfgR c cfg) = encBody co c cfg
+      ∧ ∀ x, computeHmac co (encCfgR c cfg) x = computeHmac co cfg x := by
+  have hkR := encCfg_R hc hk
+  have hA := encrypted_app_ivt hk
+  have happ : appLen c (encCfgR c cfg) = appLen c cfg := by
+    rw [encrypted_appLen hc hkR, encrypted_appLen hc hk, encrypted_appData_R_length hk]; rfl
+  have himg : encImgLen c (encCfgR c cfg) = encImgLen c cfg := by
+    unfold encImgLen; rw [encrypted_totalLen_R hc hk]; rfl
+  have hupd : ∀ x t o, updateIvt c (encCfgR c cfg) x t o = updateIvt c cfg x t o := fun _ _ _ => rfl
+  have hU : encU c (encCfgR c cfg) = encU c cfg := by
+    unfold encU
+    rw [hupd, encrypted_appData_R hk, happ, himg, updateIvt_cleanIvt _ _ _ _ _ hA]
+  have hR : encR (encCfgR c cfg) = encR cfg := by
+    unfold encR
+    rw [encrypted_appData_R_length hk]
+    rfl
+  have hraw : encRaw c (encCfgR c cfg) = encRaw c cfg := by
+    unfold encRaw; rw [hU, hR]; rfl
+  have henc : encEnc co c (encCfgR c cfg) = encEnc co c cfg := by
+    unfold encEnc; rw [hraw]; rfl
+  have hcert : certInImage c (encCfgR c cfg) = certInImage c cfg := by
+    have hclen : (certInImage c cfg).length = cfg.cert.length := encrypted_certInImage_length hc hk
+    have e1 := encrypted_certInImage hl hc hkR
+    have e2 := encrypted_certInImage hl hc hk
+    rw [← e1, henc]
+    show certSetImageLength (certInImage c cfg) ((encEnc co c cfg).length + (certInImage c cfg).length + encIvtCopySize
+      + cfg.ctrIv.length) = _
+    rw [hclen]
+    conv => lhs; rw [← e2]
+    rw [← e2]
+    unfold certSetImageLength
+    apply encrypted_setAt_setAt
+    · have := hk.hcertLen; simp only [certImageLengthOffset, certHeaderSize] at *; omega
+    · simp only [le32_length]
+  refine ⟨?_, ?_, fun _ => rfl⟩
+  · unfold encIvtOf; rw [hupd, henc, happ, himg]
+  · unfold encBody; rw [henc, happ, hcert]; rfl
+
 theorem disassemble_collect_encrypted (h : Hyp co env c cfg signer) (hf : c.family = some .encrypted) (dek : Option Bytes)
     (p : Parsed) (hp : p.tz = cfg.tz) (hcert : p.cert.isSome = c.hasAttr .cert_block) (hr : p.reloc = none) :
     ∃ raw, collect c cfg = .ok raw
       ∧ disassemble c p raw = .ok { p with app := (canon c cfg dek).app, reloc := (canon c cfg dek).reloc } := by
-  sorry
+  have hc := encCls h.hcls hf
+  have hk := encCfg hc h.hcfg
+  refine ⟨_, encrypted_collect hc hk, ?_⟩
+  rw [encrypted_disassemble hc hk dek p (by rw [hp]; exact encTzLike_refl _) hr, ← hp]
 
 theorem parse_export_encrypted (h : Hyp co env c cfg signer) (hf : c.family = some .encrypted) (dek : Option Bytes) (hdek : dek = cfg.hmacKey) :
     ∃ e, exportImage co c cfg signer = .ok e ∧ parseImage co env c dek e = .ok (canon c cfg dek) := by
-  sorry
+  have hc := encCls h.hcls hf
+  have hk := encCfg hc h.hcfg
+  have hn := encLens h.hlaws hc hk signer h.hsig
+  refine ⟨_, encrypted_export h.hlaws hc hk signer, ?_⟩
+  have hcert : (encQ co c cfg signer dek).cert = some (encCertInfo c cfg) := encrypted_canon_cert hc dek
+  have hhm : (encQ co c cfg signer dek).hmacKey = cfg.hmacKey := by
+    show (canon c cfg dek).hmacKey = _
+    simp only [canon, hc.hHmac, if_true, hdek]
+  have hiv : (encQ co c cfg signer dek).ctrIv = cfg.ctrIv := by
+    show (canon c cfg dek).ctrIv = _
+    simp only [canon, hc.hCtr, if_true]
+  have hks : (encQ co c cfg signer dek).keyStore.isSome = cfg.keyStore.isSome := by
+    show (canon c cfg dek).keyStore.isSome = _
+    rw [encrypted_canon_keyStore hc hk]
+  have hdis := encrypted_disassemble hc hk dek (encQ co c cfg signer dek) (encTzParsed_like co c cfg signer) rfl
+  unfold parseImage
+  simp only [encrypted_mixParseAll h.hlaws hc hk hn h.hsig dek hdek h.henv, bind, Except.bind,
+    encrypted_finalizeRevert h.hlaws hc hk hn (encQ co c cfg signer dek),
+    encrypted_signRevert h.hlaws hc hk hn (encQ co c cfg signer dek) _ hcert rfl rfl,
+    encrypted_postEncryptRevert h.hlaws hc hk hn (encQ co c cfg signer dek) _ hcert rfl rfl,
+    encrypted_encryptRevert h.hlaws hc hk (encQ co c cfg signer dek) hhm hiv hks, hdis]
+  congr 1
+  simp [encQ, canon, encrypted_hasTrustZone hc]
 
 theorem reexport_encrypted (h : Hyp co env c cfg signer) (hf : c.family = some .encrypted) (signer' : Signer)
     (hs' : ∀ m, (signer' m).length = cfg.sigLen) (dek : Option Bytes)
     (hdek : c.has .Mbi_MixinHmac = true → dek = cfg.hmacKey) :
     ∃ e e', exportImage co c cfg signer = .ok e ∧ exportImage co c (canon c cfg dek).toCfg signer' = .ok e'
       ∧ eqOutsideSig c cfg e e' := by
-  sorry
+  have hc := encCls h.hcls hf
+  have hk := encCfg hc h.hcfg
+  have hkR := encCfg_R hc hk
+  have hn := encLens h.hlaws hc hk signer h.hsig
+  obtain ⟨p1, p2, p3⟩ := encrypted_pieces_R h.hlaws hc hk
+  refine ⟨_, encImg co c (encCfgR c cfg) signer', encrypted_export h.hlaws hc hk signer, ?_, ?_⟩
+  · rw [encrypted_toCfg hc hk dek (hdek hc.hHmac)]
+    exact encrypted_export h.hlaws hc hkR signer'
+  · have hks : (encCfgR c cfg).keyStore = cfg.keyStore := rfl
+    have hpe : encPe co c (encCfgR c cfg) = encPe co c cfg := by unfold encPe; rw [p1, p2]
+    have e1 : encImg co c cfg signer = (encIvtOf co c cfg ++ computeHmac co cfg (encIvtOf co c cfg)
+        ++ (cfg.keyStore.getD []) ++ encBody co c cfg) ++ signer (encPe co c cfg) := rfl
+    have e2 : encImg co c (encCfgR c cfg) signer' = (encIvtOf co c cfg ++ computeHmac co cfg (encIvtOf co c cfg)
+        ++ (cfg.keyStore.getD []) ++ encBody co c cfg) ++ signer' (encPe co c cfg) := by
+      unfold encImg; rw [p1, p2, p3, hks, hpe]
+    rw [e1, e2]
+    generalize encIvtOf co c cfg ++ computeHmac co cfg (encIvtOf co c cfg) ++ (cfg.keyStore.getD []) ++ encBody co c cfg = X
+    unfold eqOutsideSig sigOffset
+    rw [hc.hsign]
+    simp only [List.length_append, h.hsig, hs', Nat.add_sub_cancel, true_and]
+    refine ⟨?_, ?_⟩
+    · rw [List.take_left, List.take_left]
+    · rw [List.drop_of_length_le (by simp [h.hsig]), List.drop_of_length_le (by simp [hs'])]
 
 theorem header_describes_encrypted (h : Hyp co env c cfg signer) (hf : c.family = some .encrypted) :
     ∃ e, exportImage co c cfg signer = .ok e
@@ -41,12 +1595,30 @@ theorem header_describes_encrypted (h : Hyp co env c cfg signer) (hf : c.family 
           ∧ (let off := appLen c cfg + (if c.has .Mbi_MixinHmac then hmacSize + (cfg.keyStore.getD []).length else 0)
              slice e off (off + cfg.cert.length)
                = (if c.has .Mbi_MixinCertBlockV1 then certInImage c cfg else cfg.cert))) := by
-  sorry
+  have hc := encCls h.hcls hf
+  have hk := encCfg hc h.hcfg
+  have hn := encLens h.hlaws hc hk signer h.hsig
+  refine ⟨_, encrypted_export h.hlaws hc hk signer, ?_⟩
+  obtain ⟨w1, w2, w3, w4⟩ := encImg_words h.hlaws hc hk signer
+  refine ⟨?_, w2, w4, ?_, ?_, ?_⟩
+  · rw [w1, encImg_length_total h.hlaws hc hk signer h.hsig]
+  · intro h0; exact absurd h0 hc.htype
+  · intro hs; rw [hc.hsign] at hs; exact absurd hs (by decide)
+  · intro _
+    refine ⟨w3, ?_⟩
+    simp only [hc.hHmac, hc.hV1, if_true]
+    exact encImg_slice_cert hn
 
 theorem total_len_sum_encrypted (h : Hyp co env c cfg signer) (hf : c.family = some .encrypted) :
     ∃ e, exportImage co c cfg signer = .ok e
       ∧ (e.length : Int) = totalLen c cfg + (if c.signKind = .rsa then cfg.sigLen else 0)
           + (if c.family = some .encrypted then encIvtCopySize + encIvSize else 0) := by
-  sorry
+  have hc := encCls h.hcls hf
+  have hk := encCfg hc h.hcfg
+  refine ⟨_, encrypted_export h.hlaws hc hk signer, ?_⟩
+  rw [encImg_length h.hlaws hc hk signer h.hsig, encrypted_totalLen hc hk, encrypted_appLen hc hk, hf, hc.hsign]
+  simp only [if_true]
+  push_cast
+  omega
 
 end SpsdkVerif.Mbi
